@@ -1,12 +1,2376 @@
-//! C05 — not built yet (stub).
+//! C05 — PoW verification accepts exactly the simple cycles of the header-seeded graph.
+//!
+//! Oracle: an independent graph-theoretic reference per variant (own siphash-2-4,
+//! own siphash-block, own endpoint derivation, degree + union-find acceptance test),
+//! pinned against the repository's known-good 42-cycle vectors before use.
+//!
+//! Parts: "tuple" (grin verify vs reference on one nonce tuple, both directions),
+//! "ser" (Proof encoding), "difficulty" (to_difficulty vs u128 recomputation),
+//! "selector" is a "tuple" with a `via` field (context from create_pow_context).
 
 use crate::engine::*;
-use serde_json::Value;
+use blake2_rfc::blake2b::blake2b;
+use grin_core::core::BlockHeader;
+use grin_core::global::{self, ChainTypes};
+use grin_core::pow::{self, Difficulty, PoWContext, Proof, ProofOfWork};
+use grin_core::ser;
+use serde_json::{json, Value};
+use std::collections::HashMap;
+use std::sync::atomic::{AtomicU32, AtomicU64, AtomicUsize, Ordering};
+use std::sync::{mpsc, Mutex, Once};
+use std::time::Duration;
 
-pub fn run(_ctx: &Ctx) -> HResult<()> {
-	Err(HarnessError("C05 check not built yet".into()))
+// ---------------------------------------------------------------------------
+// variants
+// ---------------------------------------------------------------------------
+
+#[derive(Clone, Copy, PartialEq, Eq, Hash, Debug)]
+enum Var {
+	Atoo,
+	Aroo,
+	Arood,
+	Aroom,
+	Arooz,
 }
 
-pub fn replay(_ctx: &Ctx, _part: &str, _case: &Value) -> PResult {
+const ALL_VARS: [Var; 5] = [Var::Atoo, Var::Aroo, Var::Arood, Var::Aroom, Var::Arooz];
+
+impl Var {
+	fn name(self) -> &'static str {
+		match self {
+			Var::Atoo => "cuckatoo",
+			Var::Aroo => "cuckaroo",
+			Var::Arood => "cuckarood",
+			Var::Aroom => "cuckaroom",
+			Var::Arooz => "cuckarooz",
+		}
+	}
+	fn from_name(s: &str) -> Option<Var> {
+		ALL_VARS.iter().copied().find(|v| v.name() == s)
+	}
+	/// number of bits of a node index (published definitions: cuckarood halves
+	/// each partition, cuckarooz doubles the single node space)
+	fn node_bits(self, eb: u8) -> u32 {
+		match self {
+			Var::Atoo | Var::Aroo | Var::Aroom => eb as u32,
+			Var::Arood => eb as u32 - 1,
+			Var::Arooz => eb as u32 + 1,
+		}
+	}
+	fn directed(self) -> bool {
+		matches!(self, Var::Arood | Var::Aroom)
+	}
+}
+
+// ---------------------------------------------------------------------------
+// reference primitives (written from the SipHash paper and Tromp's published
+// cuckoo reference; none of grin's helpers are used)
+// ---------------------------------------------------------------------------
+
+#[derive(Clone, Copy)]
+struct Sip {
+	v0: u64,
+	v1: u64,
+	v2: u64,
+	v3: u64,
+}
+
+impl Sip {
+	fn new(k: &[u64; 4]) -> Sip {
+		Sip { v0: k[0], v1: k[1], v2: k[2], v3: k[3] }
+	}
+	/// SipRound of the SipHash paper, with the rotation of v3 in the second
+	/// half (21 in the paper) as a parameter (cuckarood uses 25).
+	#[inline(always)]
+	fn round(&mut self, rot: u32) {
+		self.v0 = self.v0.wrapping_add(self.v1);
+		self.v1 = self.v1.rotate_left(13);
+		self.v1 ^= self.v0;
+		self.v0 = self.v0.rotate_left(32);
+		self.v2 = self.v2.wrapping_add(self.v3);
+		self.v3 = self.v3.rotate_left(16);
+		self.v3 ^= self.v2;
+		self.v0 = self.v0.wrapping_add(self.v3);
+		self.v3 = self.v3.rotate_left(rot);
+		self.v3 ^= self.v0;
+		self.v2 = self.v2.wrapping_add(self.v1);
+		self.v1 = self.v1.rotate_left(17);
+		self.v1 ^= self.v2;
+		self.v2 = self.v2.rotate_left(32);
+	}
+	/// absorb one 64-bit word: 2 compression rounds, then the 0xff finalisation
+	/// constant and 4 finalisation rounds (no length padding word)
+	#[inline(always)]
+	fn hash24(&mut self, m: u64, rot: u32) {
+		self.v3 ^= m;
+		self.round(rot);
+		self.round(rot);
+		self.v0 ^= m;
+		self.v2 ^= 0xff;
+		self.round(rot);
+		self.round(rot);
+		self.round(rot);
+		self.round(rot);
+	}
+	#[inline(always)]
+	fn xor_lanes(&self) -> u64 {
+		self.v0 ^ self.v1 ^ self.v2 ^ self.v3
+	}
+}
+
+fn ref_siphash24(keys: &[u64; 4], nonce: u64) -> u64 {
+	let mut s = Sip::new(keys);
+	s.hash24(nonce, 21);
+	s.xor_lanes()
+}
+
+/// The 64 edge words of the block starting at `block_start` (a multiple of 64):
+/// the state is carried from one nonce to the next; afterwards every entry but
+/// the last is xored with the last one (`xor_all == false`, cuckaroo/cuckarood)
+/// or every entry is xored with all later entries (`xor_all == true`, cuckaroom/z).
+fn ref_block(keys: &[u64; 4], block_start: u64, rot: u32, xor_all: bool) -> [u64; 64] {
+	let mut s = Sip::new(keys);
+	let mut buf = [0u64; 64];
+	for i in 0..64u64 {
+		s.hash24(block_start + i, rot);
+		buf[i as usize] = s.xor_lanes();
+	}
+	if xor_all {
+		let mut acc = 0u64;
+		for i in (0..64).rev() {
+			let own = buf[i];
+			buf[i] ^= acc;
+			acc ^= own;
+		}
+	} else {
+		let last = buf[63];
+		for b in buf.iter_mut().take(63) {
+			*b ^= last;
+		}
+	}
+	buf
+}
+
+fn block_params(var: Var) -> (u32, bool) {
+	match var {
+		Var::Aroo => (21, false),
+		Var::Arood => (25, false),
+		Var::Aroom | Var::Arooz => (21, true),
+		Var::Atoo => (21, false),
+	}
+}
+
+fn mask_bits(b: u32) -> u64 {
+	if b >= 64 {
+		u64::MAX
+	} else {
+		(1u64 << b) - 1
+	}
+}
+
+fn ends_from_word(var: Var, eb: u8, w: u64) -> (u64, u64) {
+	let m = mask_bits(var.node_bits(eb));
+	(w & m, (w >> 32) & m)
+}
+
+/// endpoints (u, v) of edge `nonce`
+fn ref_ends(var: Var, eb: u8, keys: &[u64; 4], nonce: u64) -> (u64, u64) {
+	match var {
+		Var::Atoo => {
+			let m = mask_bits(eb as u32);
+			(ref_siphash24(keys, 2 * nonce) & m, ref_siphash24(keys, 2 * nonce + 1) & m)
+		}
+		_ => {
+			let (rot, xa) = block_params(var);
+			let b = ref_block(keys, nonce & !63, rot, xa);
+			ends_from_word(var, eb, b[(nonce & 63) as usize])
+		}
+	}
+}
+
+/// endpoints of every edge 0..2^eb
+fn ref_all_ends(var: Var, eb: u8, keys: &[u64; 4]) -> Vec<(u64, u64)> {
+	let n = 1u64 << eb;
+	let mut out = Vec::with_capacity(n as usize);
+	match var {
+		Var::Atoo => {
+			for e in 0..n {
+				out.push(ref_ends(var, eb, keys, e));
+			}
+		}
+		_ => {
+			let (rot, xa) = block_params(var);
+			let mut start = 0;
+			while start < n {
+				let b = ref_block(keys, start, rot, xa);
+				for i in 0..64.min(n - start) {
+					out.push(ends_from_word(var, eb, b[i as usize]));
+				}
+				start += 64;
+			}
+		}
+	}
+	out
+}
+
+/// siphash keys: blake2b-256 of the header bytes read as four little-endian words
+fn ref_keys(header: &[u8], hnonce: Option<u32>) -> [u64; 4] {
+	let mut h = header.to_vec();
+	if let Some(n) = hnonce {
+		let l = h.len();
+		h.truncate(l - 4);
+		h.extend_from_slice(&n.to_le_bytes());
+	}
+	let d = blake2b(32, &[], &h);
+	let b = d.as_bytes();
+	let mut k = [0u64; 4];
+	for i in 0..4 {
+		let mut w = [0u8; 8];
+		w.copy_from_slice(&b[8 * i..8 * i + 8]);
+		k[i] = u64::from_le_bytes(w);
+	}
+	k
+}
+
+// ---------------------------------------------------------------------------
+// reference acceptance test
+// ---------------------------------------------------------------------------
+
+#[derive(Clone, Copy, PartialEq, Eq, Hash, Debug)]
+enum Cls {
+	/// accepted: one simple cycle through all edges
+	Cycle,
+	Count,
+	Range,
+	Order,
+	/// some node is touched an odd number of times (a parity shortcut can reject)
+	OddDegree,
+	/// every node touched exactly twice but direction / node-pair bit does not fit
+	RoleMismatch,
+	/// every node touched exactly twice, roles fit, more than one cycle
+	DisjointCycles,
+	/// every node touched an even number of times, some node >= 4 times, connected
+	Touching,
+	/// every node touched an even number of times, some node >= 4 times, disconnected
+	EvenMulti,
+}
+
+impl Cls {
+	fn name(self) -> &'static str {
+		match self {
+			Cls::Cycle => "cycle",
+			Cls::Count => "wrong_count",
+			Cls::Range => "out_of_range",
+			Cls::Order => "not_ascending",
+			Cls::OddDegree => "odd_degree",
+			Cls::RoleMismatch => "deg2_role_mismatch",
+			Cls::DisjointCycles => "disjoint_cycles",
+			Cls::Touching => "touching_cycles",
+			Cls::EvenMulti => "even_degree_disconnected",
+		}
+	}
+	/// non-trivial negative: passes count, order, range and no endpoint-parity
+	/// argument can reject it
+	fn deep_negative(self) -> bool {
+		matches!(self, Cls::RoleMismatch | Cls::DisjointCycles | Cls::Touching | Cls::EvenMulti)
+	}
+}
+
+const SIDE: u64 = 1 << 62;
+const ROLE_ANY: u8 = 2;
+const MAXP: usize = 64;
+
+/// ports of one edge: (node key, role). Roles: ANY (undirected), 0 = leaves the
+/// node / low bit 0, 1 = enters the node / low bit 1.
+#[inline(always)]
+fn ports(var: Var, nonce: u64, u: u64, v: u64) -> [(u64, u8); 2] {
+	match var {
+		Var::Aroo => [(u, ROLE_ANY), (SIDE | v, ROLE_ANY)],
+		Var::Arooz => [(u, ROLE_ANY), (v, ROLE_ANY)],
+		// cuckatoo: nodes come in pairs {2k, 2k+1}; a cycle passes through a pair
+		// entering at one member and leaving from the other
+		Var::Atoo => [(u >> 1, (u & 1) as u8), (SIDE | (v >> 1), (v & 1) as u8)],
+		// cuckarood: even edges point from U to V, odd edges from V to U
+		Var::Arood => {
+			if nonce & 1 == 0 {
+				[(u, 0), (SIDE | v, 1)]
+			} else {
+				[(u, 1), (SIDE | v, 0)]
+			}
+		}
+		// cuckaroom: edge points from u to v in one node space
+		Var::Aroom => [(u, 0), (v, 1)],
+	}
+}
+
+/// Graph-theoretic acceptance: exact count, strictly ascending, all nonces
+/// below 2^eb, every touched node has exactly two ports with fitting roles,
+/// and the edges are connected (⇒ one simple cycle through all of them).
+fn ref_check(var: Var, eb: u8, proof_size: usize, nonces: &[u64], ends: &dyn Fn(u64) -> (u64, u64)) -> Cls {
+	if nonces.len() != proof_size {
+		return Cls::Count;
+	}
+	let n_edges = 1u128 << eb;
+	if nonces.iter().any(|&n| (n as u128) >= n_edges) {
+		return Cls::Range;
+	}
+	if nonces.windows(2).any(|w| w[0] >= w[1]) {
+		return Cls::Order;
+	}
+	let n = nonces.len();
+	assert!(n <= MAXP);
+	let mut p = [(0u64, 0u8, 0u8); 2 * MAXP];
+	for (i, &nc) in nonces.iter().enumerate() {
+		let (u, v) = ends(nc);
+		let q = ports(var, nc, u, v);
+		p[2 * i] = (q[0].0, q[0].1, i as u8);
+		p[2 * i + 1] = (q[1].0, q[1].1, i as u8);
+	}
+	let p = &mut p[..2 * n];
+	p.sort_unstable();
+	// union-find over edges
+	let mut par = [0u8; MAXP];
+	for (i, x) in par.iter_mut().enumerate().take(n) {
+		*x = i as u8;
+	}
+	fn find(par: &mut [u8; MAXP], mut x: u8) -> u8 {
+		while par[x as usize] != x {
+			par[x as usize] = par[par[x as usize] as usize];
+			x = par[x as usize];
+		}
+		x
+	}
+	let mut all_even = true;
+	let mut all_two = true;
+	let mut roles_ok = true;
+	let mut i = 0;
+	while i < p.len() {
+		let mut j = i + 1;
+		while j < p.len() && p[j].0 == p[i].0 {
+			let (a, b) = (find(&mut par, p[i].2), find(&mut par, p[j].2));
+			if a != b {
+				par[a as usize] = b;
+			}
+			j += 1;
+		}
+		let deg = j - i;
+		if deg % 2 == 1 {
+			all_even = false;
+		}
+		if deg != 2 {
+			all_two = false;
+		} else {
+			let (ra, rb) = (p[i].1, p[i + 1].1);
+			let ok = (ra == ROLE_ANY && rb == ROLE_ANY) || (ra < 2 && rb < 2 && ra != rb);
+			if !ok {
+				roles_ok = false;
+			}
+		}
+		i = j;
+	}
+	let mut comps = 0;
+	for e in 0..n {
+		if find(&mut par, e as u8) == e as u8 {
+			comps += 1;
+		}
+	}
+	if !all_even {
+		return Cls::OddDegree;
+	}
+	if all_two {
+		if !roles_ok {
+			return Cls::RoleMismatch;
+		}
+		return if comps == 1 { Cls::Cycle } else { Cls::DisjointCycles };
+	}
+	if comps == 1 {
+		Cls::Touching
+	} else {
+		Cls::EvenMulti
+	}
+}
+
+// ---------------------------------------------------------------------------
+// grin side
+// ---------------------------------------------------------------------------
+
+fn chain_of(name: &str) -> ChainTypes {
+	match name {
+		"main" => ChainTypes::Mainnet,
+		"test" => ChainTypes::Testnet,
+		"user" => ChainTypes::UserTesting,
+		_ => ChainTypes::AutomatedTesting,
+	}
+}
+
+/// chain type giving the requested proof size for directly built contexts
+fn chain_for_size(ps: usize) -> Result<&'static str, Fail> {
+	match ps {
+		8 => Ok("auto"),
+		42 => Ok("user"),
+		_ => Err(Fail::new("harness-bad-case", format!("no chain type with proof size {}", ps))),
+	}
+}
+
+fn build_ctx(var: Var, eb: u8, ps: usize) -> Result<Box<dyn PoWContext>, Fail> {
+	let r = match var {
+		Var::Atoo => pow::new_cuckatoo_ctx(eb, ps, 4),
+		Var::Aroo => pow::new_cuckaroo_ctx(eb, ps),
+		Var::Arood => pow::new_cuckarood_ctx(eb, ps),
+		Var::Aroom => pow::new_cuckaroom_ctx(eb, ps),
+		Var::Arooz => pow::new_cuckarooz_ctx(eb, ps),
+	};
+	r.map_err(|e| Fail::new("harness-ctx", format!("cannot build {} context: {}", var.name(), e)))
+}
+
+/// The variant the consensus rules name for (chain, height, edge_bits); None =
+/// no context exists (everything must be refused).
+fn rules_variant(chain: &str, height: u64, eb: u8) -> Option<Var> {
+	const HALF_YEAR: u64 = 60 * 24 * 7 * 52 / 2; // one-minute blocks, 52-week year
+	match chain {
+		"main" | "test" => {
+			if eb > 29 {
+				return Some(Var::Atoo);
+			}
+			let era = if chain == "main" {
+				height / HALF_YEAR
+			} else if height < 185_040 {
+				0
+			} else if height < 298_080 {
+				1
+			} else if height < 552_960 {
+				2
+			} else if height < 642_240 {
+				3
+			} else {
+				4
+			};
+			match era {
+				0 => Some(Var::Aroo),
+				1 => Some(Var::Arood),
+				2 => Some(Var::Aroom),
+				3 => Some(Var::Arooz),
+				_ => None,
+			}
+		}
+		_ => Some(Var::Atoo),
+	}
+}
+
+#[derive(Clone, Debug)]
+struct Via {
+	chain: String,
+	height: u64,
+}
+
+/// One seeded graph plus the grin context for it.
+struct Bench {
+	var: Option<Var>,
+	eb: u8,
+	ps: usize,
+	hdr: Vec<u8>,
+	hn: Option<u32>,
+	keys: [u64; 4],
+	via: Option<Via>,
+	gctx: Option<Box<dyn PoWContext>>,
+	all: Option<Vec<(u64, u64)>>,
+}
+
+#[derive(Debug, PartialEq)]
+enum GrinOut {
+	Accept,
+	Reject(String),
+}
+
+/// Bulk loops execute tuples for which the shield predicts a non-terminating
+/// verify() on a sacrificial thread until the first one really times out (the
+/// abandoned thread keeps spinning, so the remaining predicted ones are only
+/// counted). 0 = none timed out so far, 1 = one is being tried, 2 = confirmed.
+static HANG_STATE: AtomicU32 = AtomicU32::new(0);
+
+fn hang_timeout() -> Duration {
+	Duration::from_millis(std::env::var("GV_C05_HANG_MS").ok().and_then(|s| s.parse().ok()).unwrap_or(2500))
+}
+
+/// true = caller may execute the predicted-hang tuple (and must call
+/// `hang_release` afterwards); false = a hang is confirmed or being tried
+/// (a try takes microseconds unless it is a real hang)
+fn hang_acquire() -> bool {
+	HANG_STATE.compare_exchange(0, 1, Ordering::SeqCst, Ordering::SeqCst).is_ok()
+}
+
+fn hang_release(timed_out: bool) {
+	HANG_STATE.store(if timed_out { 2 } else { 0 }, Ordering::SeqCst);
+}
+
+/// Run `f` (a grin call) on a sacrificial thread; Err(sig verify-nonterminating)
+/// if it does not return in time.
+fn guarded<T: Send + 'static>(what: String, f: impl FnOnce() -> Result<T, String> + Send + 'static) -> Result<T, Fail> {
+	let (tx, rx) = mpsc::channel();
+	std::thread::Builder::new()
+		.name("c05-guarded".into())
+		.spawn(move || {
+			let r = catch(f);
+			let _ = tx.send(r);
+		})
+		.map_err(|e| Fail::new("harness-thread", e.to_string()))?;
+	match rx.recv_timeout(hang_timeout()) {
+		Ok(Ok(Ok(o))) => Ok(o),
+		Ok(Ok(Err(s))) => Err(Fail::new("harness-ctx", s)),
+		Ok(Err(f)) => Err(f),
+		Err(_) => Err(Fail::new("verify-nonterminating", format!("did not return within {:?} (thread abandoned): {}", hang_timeout(), what))),
+	}
+}
+
+impl Bench {
+	/// the calling thread's chain type is set as a side effect
+	fn new(var: Var, eb: u8, ps: usize, hdr: Vec<u8>, hn: Option<u32>) -> Result<Bench, Fail> {
+		global::set_local_chain_type(chain_of(chain_for_size(ps)?));
+		let mut g = build_ctx(var, eb, ps)?;
+		g.set_header_nonce(hdr.clone(), hn, false).map_err(|e| Fail::new("harness-ctx", format!("set_header_nonce: {}", e)))?;
+		let keys = ref_keys(&hdr, hn);
+		Ok(Bench { var: Some(var), eb, ps, hdr, hn, keys, via: None, gctx: Some(g), all: None })
+	}
+
+	/// context obtained from the production selector
+	fn new_via(via: Via, eb: u8, ps: usize, hdr: Vec<u8>, hn: Option<u32>) -> Result<Bench, Fail> {
+		let ct = chain_of(&via.chain);
+		global::set_local_chain_type(ct);
+		ensure_h(global::proofsize() == ps, "proof size of chain type differs from case")?;
+		let var = rules_variant(&via.chain, via.height, eb);
+		let g = match catch(|| global::create_pow_context::<u64>(via.height, eb, ps, 4))? {
+			Ok(mut g) => {
+				g.set_header_nonce(hdr.clone(), hn, false).map_err(|e| Fail::new("harness-ctx", format!("set_header_nonce: {}", e)))?;
+				Some(g)
+			}
+			Err(_) => None,
+		};
+		if var.is_some() != g.is_some() {
+			return Err(Fail::new(
+				"selector-context-existence",
+				format!("chain {} height {} edge_bits {}: rules name {:?}, create_pow_context gave a context: {}", via.chain, via.height, eb, var.map(|v| v.name()), g.is_some()),
+			));
+		}
+		let keys = ref_keys(&hdr, hn);
+		Ok(Bench { var, eb, ps, hdr, hn, keys, via: Some(via), gctx: g, all: None })
+	}
+
+	fn with_all_ends(mut self) -> Bench {
+		if let Some(v) = self.var {
+			self.all = Some(ref_all_ends(v, self.eb, &self.keys));
+		}
+		self
+	}
+
+	fn ends(&self, nonce: u64) -> (u64, u64) {
+		match &self.all {
+			Some(a) if (nonce as usize) < a.len() => a[nonce as usize],
+			_ => ref_ends(self.var.unwrap(), self.eb, &self.keys, nonce),
+		}
+	}
+
+	fn ref_cls(&self, nonces: &[u64]) -> Cls {
+		match self.var {
+			Some(v) => ref_check(v, self.eb, self.ps, nonces, &|n| self.ends(n)),
+			None => Cls::Count, // no context: nothing is acceptable
+		}
+	}
+
+	fn case_json(&self, nonces: &[u64], must_reject: bool) -> Value {
+		let mut j = json!({
+			"variant": self.var.map(|v| v.name()).unwrap_or("none"),
+			"edge_bits": self.eb,
+			"proof_size": self.ps,
+			"header": hex(&self.hdr),
+			"header_nonce": self.hn,
+			"nonces": nonces,
+			"must_reject": must_reject,
+		});
+		if let Some(v) = &self.via {
+			j["via"] = json!({"chain": v.chain, "height": v.height});
+		}
+		j
+	}
+
+	/// Safety shield (not an oracle): does the cycle-following loop of the
+	/// published cuckarood verifier revisit an edge other than the first one?
+	/// Returns (potential, exact): `potential` looks at the walk only, `exact`
+	/// also requires the cheap early exits (balance, endpoint xor) to pass.
+	fn arood_walk_repeats(&self, nonces: &[u64]) -> (bool, bool) {
+		if self.var != Some(Var::Arood) || nonces.len() != self.ps {
+			return (false, false);
+		}
+		if nonces.iter().any(|&n| (n as u128) >= (1u128 << self.eb)) || nonces.windows(2).any(|w| w[0] >= w[1]) {
+			return (false, false);
+		}
+		let e: Vec<(u64, u64)> = nonces.iter().map(|&n| self.ends(n)).collect();
+		let even: Vec<usize> = (0..nonces.len()).filter(|&i| nonces[i] & 1 == 0).collect();
+		let odd: Vec<usize> = (0..nonces.len()).filter(|&i| nonces[i] & 1 == 1).collect();
+		if even.is_empty() {
+			return (false, false);
+		}
+		let first = even[0];
+		let mut cur = first;
+		let mut seen = vec![false; nonces.len()];
+		let mut repeats = false;
+		for _ in 0..=nonces.len() {
+			let m: Vec<usize> = odd.iter().copied().filter(|&o| e[o].0 == e[cur].0).collect();
+			if m.len() != 1 {
+				break;
+			}
+			let m2: Vec<usize> = even.iter().copied().filter(|&x| e[x].1 == e[m[0]].1).collect();
+			if m2.len() != 1 {
+				break;
+			}
+			cur = m2[0];
+			if cur == first {
+				break;
+			}
+			if seen[cur] {
+				repeats = true;
+				break;
+			}
+			seen[cur] = true;
+		}
+		if !repeats {
+			return (false, false);
+		}
+		let balanced = even.len() == odd.len();
+		let x0 = e.iter().fold(0, |a, x| a ^ x.0);
+		let x1 = e.iter().fold(0, |a, x| a ^ x.1);
+		(true, balanced && x0 == 0 && x1 == 0)
+	}
+
+	/// grin's verdict through the context owned by this thread
+	fn grin_direct(&self, proof: &Proof) -> Result<GrinOut, Fail> {
+		let g = self.gctx.as_ref().unwrap();
+		match catch(|| g.verify(proof))? {
+			Ok(()) => Ok(GrinOut::Accept),
+			Err(e) => Ok(GrinOut::Reject(e.to_string())),
+		}
+	}
+
+	/// grin's verdict computed on a sacrificial thread with a time limit
+	fn grin_guarded(&self, nonces: &[u64]) -> Result<GrinOut, Fail> {
+		let (var, eb, ps, hdr, hn, via) = (self.var, self.eb, self.ps, self.hdr.clone(), self.hn, self.via.clone());
+		let nv = nonces.to_vec();
+		let vn = self.var.map(|v| v.name()).unwrap_or("none");
+		let what = format!("verify() of {} edge_bits {} proof size {} nonces {:?}", vn, eb, ps, nonces);
+		guarded(what, move || {
+			let mut g = match &via {
+				Some(v) => {
+					global::set_local_chain_type(chain_of(&v.chain));
+					global::create_pow_context::<u64>(v.height, eb, ps, 4).map_err(|e| e.to_string())?
+				}
+				None => {
+					global::set_local_chain_type(chain_of(chain_for_size(ps).map_err(|f| f.msg)?));
+					build_ctx(var.unwrap(), eb, ps).map_err(|f| f.msg)?
+				}
+			};
+			g.set_header_nonce(hdr, hn, false).map_err(|e| e.to_string())?;
+			let p = Proof { edge_bits: eb, nonces: nv };
+			Ok::<GrinOut, String>(match g.verify(&p) {
+				Ok(()) => GrinOut::Accept,
+				Err(e) => GrinOut::Reject(e.to_string()),
+			})
+		})
+		.map_err(|mut f| {
+			if f.sig == "verify-nonterminating" {
+				f.sig = format!("verify-nonterminating:{}", vn);
+			}
+			f
+		})
+	}
+
+	/// Both-directions comparison on one tuple. `guard_all`: always use the
+	/// sacrificial thread (replay); otherwise only when the shield fires.
+	/// Returns the reference class (None when the call was not executed).
+	fn compare(&self, proof: &mut Proof, nonces: &[u64], must_reject: bool, guard_all: bool, st: &Stats) -> Result<Option<Cls>, Fail> {
+		let cls = self.ref_cls(nonces);
+		let refacc = cls == Cls::Cycle;
+		if must_reject && refacc {
+			return Err(Fail::new("harness-oracle", format!("reference accepts a tuple built to be invalid: {:?}", nonces)));
+		}
+		let out = if self.gctx.is_none() {
+			GrinOut::Reject("no context".into())
+		} else {
+			let (potential, exact) = self.arood_walk_repeats(nonces);
+			if guard_all {
+				self.grin_guarded(nonces)?
+			} else if exact {
+				st.predicted_hang.fetch_add(1, Ordering::Relaxed);
+				if !hang_acquire() {
+					st.skipped_hang.fetch_add(1, Ordering::Relaxed);
+					return Ok(None);
+				}
+				let r = self.grin_guarded(nonces);
+				hang_release(matches!(&r, Err(f) if f.sig.starts_with("verify-nonterminating")));
+				r?
+			} else if potential {
+				self.grin_guarded(nonces)?
+			} else {
+				proof.edge_bits = self.eb;
+				proof.nonces.clear();
+				proof.nonces.extend_from_slice(nonces);
+				self.grin_direct(proof)?
+			}
+		};
+		let vn = self.var.map(|v| v.name()).unwrap_or("none");
+		match (&out, refacc) {
+			(GrinOut::Accept, false) => Err(Fail::new(
+				format!("non-cycle-accepted:{}", vn),
+				format!("{} edge_bits {}: verify accepted {:?} which the reference classifies as {}", vn, self.eb, nonces, cls.name()),
+			)),
+			(GrinOut::Reject(why), true) => Err(Fail::new(
+				format!("true-cycle-rejected:{}", vn),
+				format!("{} edge_bits {}: verify rejected ({}) the simple cycle {:?}", vn, self.eb, why, nonces),
+			)),
+			_ => Ok(Some(cls)),
+		}
+	}
+}
+
+fn ensure_h(c: bool, msg: &str) -> Result<(), Fail> {
+	if c {
+		Ok(())
+	} else {
+		Err(Fail::new("harness-bad-case", msg))
+	}
+}
+
+fn hex(b: &[u8]) -> String {
+	b.iter().map(|x| format!("{:02x}", x)).collect()
+}
+
+fn unhex(s: &str) -> Vec<u8> {
+	(0..s.len() / 2).filter_map(|i| u8::from_str_radix(&s[2 * i..2 * i + 2], 16).ok()).collect()
+}
+
+// ---------------------------------------------------------------------------
+// shared counters (bulk loops count locally and flush once)
+// ---------------------------------------------------------------------------
+
+#[derive(Default)]
+struct Stats {
+	predicted_hang: AtomicU64,
+	skipped_hang: AtomicU64,
+}
+
+struct Failures {
+	v: Mutex<Vec<(String, Fail, Value)>>,
+}
+
+impl Failures {
+	fn new() -> Failures {
+		Failures { v: Mutex::new(vec![]) }
+	}
+	/// keep at most 3 cases per signature
+	fn push(&self, part: &str, f: Fail, case: Value) {
+		let mut g = self.v.lock().unwrap();
+		if g.iter().filter(|x| x.1.sig == f.sig).count() < 3 {
+			g.push((part.to_string(), f, case));
+		}
+	}
+	/// violations go to ctx.report; harness-side problems are returned
+	fn report(&self, ctx: &Ctx) -> Vec<String> {
+		let mut harness = vec![];
+		for (part, f, case) in self.v.lock().unwrap().drain(..) {
+			if f.sig.starts_with("harness-") {
+				harness.push(format!("{}: {} (case {})", f.sig, f.msg, case));
+			} else {
+				ctx.report(&part, &f.sig, case, &f.msg);
+			}
+		}
+		harness
+	}
+}
+
+/// run `jobs` closures-by-index on `threads` threads
+fn par_jobs(n_jobs: usize, threads: usize, f: &(dyn Fn(usize) + Sync)) {
+	let next = AtomicUsize::new(0);
+	std::thread::scope(|sc| {
+		for _ in 0..threads.min(n_jobs.max(1)) {
+			std::thread::Builder::new()
+				.stack_size(32 << 20)
+				.spawn_scoped(sc, || loop {
+					let j = next.fetch_add(1, Ordering::SeqCst);
+					if j >= n_jobs {
+						break;
+					}
+					f(j);
+				})
+				.unwrap();
+		}
+	});
+}
+
+fn threads() -> usize {
+	std::env::var("GV_THREADS").ok().and_then(|s| s.parse().ok()).unwrap_or(16)
+}
+
+// ---------------------------------------------------------------------------
+// part 0: pin the reference against the repository's known-good vectors
+// ---------------------------------------------------------------------------
+
+mod vectors {
+	pub static ATOO_29: (u32, [u64; 42]) = (
+		20,
+		[
+			0x48a9e2, 0x9cf043, 0x155ca30, 0x18f4783, 0x248f86c, 0x2629a64, 0x5bad752, 0x72e3569, 0x93db760, 0x97d3b37, 0x9e05670, 0xa315d5a, 0xa3571a1,
+			0xa48db46, 0xa7796b6, 0xac43611, 0xb64912f, 0xbb6c71e, 0xbcc8be1, 0xc38a43a, 0xd4faa99, 0xe018a66, 0xe37e49c, 0xfa975fa, 0x11786035, 0x1243b60a,
+			0x12892da0, 0x141b5453, 0x1483c3a0, 0x1505525e, 0x1607352c, 0x16181fe3, 0x17e3a1da, 0x180b651e, 0x1899d678, 0x1931b0bb, 0x19606448, 0x1b041655,
+			0x1b2c20ad, 0x1bd7a83c, 0x1c05d5b0, 0x1c0b9caa,
+		],
+	);
+	pub static ATOO_31: (u32, [u64; 42]) = (
+		99,
+		[
+			0x1128e07, 0xc181131, 0x110fad36, 0x1135ddee, 0x1669c7d3, 0x1931e6ea, 0x1c0005f3, 0x1dd6ecca, 0x1e29ce7e, 0x209736fc, 0x2692bf1a, 0x27b85aa9,
+			0x29bb7693, 0x2dc2a047, 0x2e28650a, 0x2f381195, 0x350eb3f9, 0x3beed728, 0x3e861cbc, 0x41448cc1, 0x41f08f6d, 0x42fbc48a, 0x4383ab31, 0x4389c61f,
+			0x4540a5ce, 0x49a17405, 0x50372ded, 0x512f0db0, 0x588b6288, 0x5a36aa46, 0x5c29e1fe, 0x6118ab16, 0x634705b5, 0x6633d190, 0x6683782f, 0x6728b6e1,
+			0x67adfb45, 0x68ae2306, 0x6d60f5e1, 0x78af3c4f, 0x7dde51ab, 0x7faced21,
+		],
+	);
+	pub static ATOO_32: (u32, [u64; 42]) = (
+		17,
+		[
+			0x6da0bbf, 0xb175276, 0xf978803, 0x187bea71, 0x2074a1a6, 0x22270923, 0x2c70b560, 0x411d193f, 0x417c55d4, 0x4ebbda62, 0x5238584a, 0x545efac9,
+			0x569e98e1, 0x57040b66, 0x5e16153e, 0x5e749d2e, 0x60b771c2, 0x68e63420, 0x74a2825e, 0x755790ac, 0x7d5e280f, 0x7fe4d148, 0x934b32c8, 0x94a0c441,
+			0x9643fb25, 0x9718e41d, 0x982e6b8b, 0x9c47d21c, 0xa1f64135, 0xa90e209c, 0xabb868cb, 0xafef989e, 0xb0fc021e, 0xb20a7b56, 0xb5e59931, 0xb63e46b9,
+			0xb8823ed5, 0xd11e966c, 0xd95e515d, 0xe0245efe, 0xf3edc79a, 0xfb8a29ce,
+		],
+	);
+	pub static ATOO_33: (u32, [u64; 42]) = (
+		79,
+		[
+			0x7aaf51f, 0x1434ebf3, 0x25bcee6e, 0x2fbddf0b, 0x322a87b6, 0x414f6a57, 0x701a84af, 0x7c432040, 0x822b8ee0, 0x83c9fed3, 0x89af26b2, 0xa5bc5d69,
+			0xbe924630, 0xd3146f50, 0xd4e0f240, 0xe10e5bdc, 0x113400ccc, 0x114a917b2, 0x118482498, 0x11deca0f4, 0x1241c7ff0, 0x1245f8886, 0x12a6517e3,
+			0x12c1a0edd, 0x142d988ee, 0x14637a89b, 0x15399e735, 0x1699c1cf9, 0x16e91ddd4, 0x17414f603, 0x18c07384c, 0x1993cdd97, 0x19d37ce5b, 0x1a43455c5,
+			0x1aa312c2f, 0x1b20fe128, 0x1b7610376, 0x1bce4d125, 0x1c4834307, 0x1c7a2e5b2, 0x1da840832, 0x1e4e3da0c,
+		],
+	);
+
+	pub static AROO_19_1: ([u64; 4], [u64; 42]) = (
+		[0x23796193872092ea, 0xf1017d8a68c4b745, 0xd312bd53d2cd307b, 0x840acce5833ddc52],
+		[
+			0x45e9, 0x6a59, 0xf1ad, 0x10ef7, 0x129e8, 0x13e58, 0x17936, 0x19f7f, 0x208df, 0x23704, 0x24564, 0x27e64, 0x2b828, 0x2bb41, 0x2ffc0, 0x304c5, 0x31f2a,
+			0x347de, 0x39686, 0x3ab6c, 0x429ad, 0x45254, 0x49200, 0x4f8f8, 0x5697f, 0x57ad1, 0x5dd47, 0x607f8, 0x66199, 0x686c7, 0x6d5f3, 0x6da7a, 0x6dbdf, 0x6f6bf,
+			0x6ffbb, 0x7580e, 0x78594, 0x785ac, 0x78b1d, 0x7b80d, 0x7c11c, 0x7da35,
+		],
+	);
+	pub static AROO_19_2: ([u64; 4], [u64; 42]) = (
+		[0x6a54f2a35ab7e976, 0x68818717ff5cd30e, 0x9c14260c1bdbaf7, 0xea5b4cd5d0de3cf0],
+		[
+			0x2b1e, 0x67d3, 0xb041, 0xb289, 0xc6c3, 0xd31e, 0xd75c, 0x111d7, 0x145aa, 0x1712e, 0x1a3af, 0x1ecc5, 0x206b1, 0x2a55c, 0x2a9cd, 0x2b67e, 0x321d8, 0x35dde,
+			0x3721e, 0x37ac0, 0x39edb, 0x3b80b, 0x3fc79, 0x4148b, 0x42a48, 0x44395, 0x4bbc9, 0x4f775, 0x515c5, 0x56f97, 0x5aa10, 0x5bc1b, 0x5c56d, 0x5d552, 0x60a2e,
+			0x66646, 0x6c3aa, 0x70709, 0x71d13, 0x762a3, 0x79d88, 0x7e3ae,
+		],
+	);
+	pub static AROOD_19: ([u64; 4], [u64; 42]) = (
+		[0x89f81d7da5e674df, 0x7586b93105a5fd13, 0x6fbe212dd4e8c001, 0x8800c93a8431f938],
+		[
+			0xa00, 0x3ffb, 0xa474, 0xdc27, 0x182e6, 0x242cc, 0x24de4, 0x270a2, 0x28356, 0x2951f, 0x2a6ae, 0x2c889, 0x355c7, 0x3863b, 0x3bd7e, 0x3cdbc, 0x3ff95,
+			0x430b6, 0x4ba1a, 0x4bd7e, 0x4c59f, 0x4f76d, 0x52064, 0x5378c, 0x540a3, 0x5af6b, 0x5b041, 0x5e9d3, 0x64ec7, 0x6564b, 0x66763, 0x66899, 0x66e80, 0x68e4e,
+			0x69133, 0x6b20a, 0x6c2d7, 0x6fd3b, 0x79a8a, 0x79e29, 0x7ae52, 0x7defe,
+		],
+	);
+	pub static AROOD_29: ([u64; 4], [u64; 42]) = (
+		[0xe2f917b2d79492ed, 0xf51088eaaa3a07a0, 0xaf4d4288d36a4fa8, 0xc8cdfd30a54e0581],
+		[
+			0x1a9629, 0x1fb257, 0x5dc22a, 0xf3d0b0, 0x200c474, 0x24bd68f, 0x48ad104, 0x4a17170, 0x4ca9a41, 0x55f983f, 0x6076c91, 0x6256ffc, 0x63b60a1, 0x7fd5b16,
+			0x985bff8, 0xaae71f3, 0xb71f7b4, 0xb989679, 0xc09b7b8, 0xd7601da, 0xd7ab1b6, 0xef1c727, 0xf1e702b, 0xfd6d961, 0xfdf0007, 0x10248134, 0x114657f6,
+			0x11f52612, 0x12887251, 0x13596b4b, 0x15e8d831, 0x16b4c9e5, 0x17097420, 0x1718afca, 0x187fc40c, 0x19359788, 0x1b41d3f1, 0x1bea25a7, 0x1d28df0f,
+			0x1ea6c4a0, 0x1f9bf79f, 0x1fa005c6,
+		],
+	);
+	pub static AROOM_19: ([u64; 4], [u64; 42]) = (
+		[0xdb7896f799c76dab, 0x352e8bf25df7a723, 0xf0aa29cbb1150ea6, 0x3206c2759f41cbd5],
+		[
+			0x0413c, 0x05121, 0x0546e, 0x1293a, 0x1dd27, 0x1e13e, 0x1e1d2, 0x22870, 0x24642, 0x24833, 0x29190, 0x2a732, 0x2ccf6, 0x302cf, 0x32d9a, 0x33700, 0x33a20,
+			0x351d9, 0x3554b, 0x35a70, 0x376c1, 0x398c6, 0x3f404, 0x3ff0c, 0x48b26, 0x49a03, 0x4c555, 0x4dcda, 0x4dfcd, 0x4fbb6, 0x50275, 0x584a8, 0x5da0d, 0x5dbf1,
+			0x6038f, 0x66540, 0x72bbd, 0x77323, 0x77424, 0x77a14, 0x77dc9, 0x7d9dc,
+		],
+	);
+	pub static AROOM_29: ([u64; 4], [u64; 42]) = (
+		[0xe4b4a751f2eac47d, 0x3115d47edfb69267, 0x87de84146d9d609e, 0x7deb20eab6d976a1],
+		[
+			0x04acd28, 0x29ccf71, 0x2a5572b, 0x2f31c2c, 0x2f60c37, 0x317fe1d, 0x32f6d4c, 0x3f51227, 0x45ee1dc, 0x535eeb8, 0x5e135d5, 0x6184e3d, 0x6b1b8e0, 0x6f857a9,
+			0x8916a0f, 0x9beb5f8, 0xa3c8dc9, 0xa886d94, 0xaab6a57, 0xd6df8f8, 0xe4d630f, 0xe6ae422, 0xea2d658, 0xf7f369b, 0x10c465d8, 0x1130471e, 0x12049efb,
+			0x12f43bc5, 0x15b493a6, 0x16899354, 0x1915dfca, 0x195c3dac, 0x19b09ab6, 0x1a1a8ed7, 0x1bba748f, 0x1bdbf777, 0x1c806542, 0x1d201b53, 0x1d9e6af7,
+			0x1e99885e, 0x1f255834, 0x1f9c383b,
+		],
+	);
+	pub static AROOZ_19: ([u64; 4], [u64; 42]) = (
+		[0xd129f63fba4d9a85, 0x457dcb3666c5e09c, 0x045247a2e2ee75f7, 0x1a0f2e1bcb9d93ff],
+		[
+			0x33b6, 0x487b, 0x88b7, 0x10bf6, 0x15144, 0x17cb7, 0x22621, 0x2358e, 0x23775, 0x24fb3, 0x26b8a, 0x2876c, 0x2973e, 0x2f4ba, 0x30a62, 0x3a36b, 0x3ba5d,
+			0x3be67, 0x3ec56, 0x43141, 0x4b9c5, 0x4fa06, 0x51a5c, 0x523e5, 0x53d08, 0x57d34, 0x5c2de, 0x60bba, 0x62509, 0x64d69, 0x6803f, 0x68af4, 0x6bd52, 0x6f041,
+			0x6f900, 0x70051, 0x7097d, 0x735e8, 0x742c2, 0x79ae5, 0x7f64d, 0x7fd49,
+		],
+	);
+	pub static AROOZ_29: ([u64; 4], [u64; 42]) = (
+		[0x34bb4c75c929a2f5, 0x21df13263aa81235, 0x37d00939eae4be06, 0x473251cbf6941553],
+		[
+			0x49733a, 0x1d49107, 0x253d2ca, 0x5ad5e59, 0x5b671bd, 0x5dcae1c, 0x5f9a589, 0x65e9afc, 0x6a59a45, 0x7d9c6d3, 0x7df96e4, 0x8b26174, 0xa17b430, 0xa1c8c0d,
+			0xa8a0327, 0xabd7402, 0xacb7c77, 0xb67524f, 0xc1c15a6, 0xc7e2c26, 0xc7f5d8d, 0xcae478a, 0xdea9229, 0xe1ab49e, 0xf57c7db, 0xfb4e8c5, 0xff314aa,
+			0x110ccc12, 0x143e546f, 0x17007af8, 0x17140ea2, 0x173d7c5d, 0x175cd13f, 0x178b8880, 0x1801edc5, 0x18c8f56b, 0x18c8fe6d, 0x19f1a31a, 0x1bb028d1,
+			0x1caaa65a, 0x1cf29bc2, 0x1dbde27d,
+		],
+	);
+}
+
+/// Returns Err (harness problem) when the reference disagrees with a vector
+/// produced by the reference miners.
+fn pin_reference(ctx: &Ctx) -> HResult<()> {
+	use vectors::*;
+	// published siphash outputs (repository unit test constants)
+	let sh = [([1u64, 2, 3, 4], 10u64, 928382149599306901u64), ([1, 2, 3, 4], 111, 10524991083049122233), ([9, 7, 6, 7], 12, 1305683875471634734), ([9, 7, 6, 7], 10, 11589833042187638814)];
+	for (k, n, want) in sh {
+		if ref_siphash24(&k, n) != want {
+			return Err(HarnessError(format!("reference siphash24({:?},{}) = {} != published {}", k, n, ref_siphash24(&k, n), want)));
+		}
+	}
+	let sb = [([1u64, 2, 3, 4], 10u64, 1182162244994096396u64), ([1, 2, 3, 4], 123, 11303676240481718781), ([9, 7, 6, 7], 12, 4886136884237259030)];
+	for (k, n, want) in sb {
+		let got = ref_block(&k, n & !63, 21, false)[(n & 63) as usize];
+		if got != want {
+			return Err(HarnessError(format!("reference siphash block({:?},{}) = {} != published {}", k, n, got, want)));
+		}
+	}
+	let raw: [(Var, u8, &([u64; 4], [u64; 42])); 8] = [
+		(Var::Aroo, 19, &AROO_19_1),
+		(Var::Aroo, 19, &AROO_19_2),
+		(Var::Arood, 19, &AROOD_19),
+		(Var::Arood, 29, &AROOD_29),
+		(Var::Aroom, 19, &AROOM_19),
+		(Var::Aroom, 29, &AROOM_29),
+		(Var::Arooz, 19, &AROOZ_19),
+		(Var::Arooz, 29, &AROOZ_29),
+	];
+	for (i, (var, eb, (keys, sol))) in raw.iter().enumerate() {
+		let c = ref_check(*var, *eb, 42, &sol[..], &|n| ref_ends(*var, *eb, keys, n));
+		if c != Cls::Cycle {
+			return Err(HarnessError(format!("reference rejects ({}) the known-good {} {} vector — oracle is wrong", c.name(), var.name(), eb)));
+		}
+		// and it is discriminating: wrong keys, one nonce off
+		let (okeys, _) = raw[(i + 1) % raw.len()].2;
+		if ref_check(*var, *eb, 42, &sol[..], &|n| ref_ends(*var, *eb, okeys, n)) == Cls::Cycle {
+			return Err(HarnessError(format!("reference accepts {} {} vector under foreign keys", var.name(), eb)));
+		}
+		let mut bad = sol.to_vec();
+		bad[7] += 1;
+		if ref_check(*var, *eb, 42, &bad, &|n| ref_ends(*var, *eb, keys, n)) == Cls::Cycle {
+			return Err(HarnessError(format!("reference accepts a perturbed {} {} vector", var.name(), eb)));
+		}
+		ctx.ev.class("pinned_reference_vectors");
+	}
+	// cuckatoo vectors are header-derived: reference AND grin (direct context, Mainnet proof size 42)
+	global::set_local_chain_type(ChainTypes::Mainnet);
+	for (eb, (hn, sol)) in [(29u8, &ATOO_29), (31, &ATOO_31), (32, &ATOO_32), (33, &ATOO_33)] {
+		let hdr = vec![0u8; 80];
+		let keys = ref_keys(&hdr, Some(*hn));
+		let c = ref_check(Var::Atoo, eb, 42, &sol[..], &|n| ref_ends(Var::Atoo, eb, &keys, n));
+		if c != Cls::Cycle {
+			return Err(HarnessError(format!("reference rejects ({}) the known-good cuckatoo {} vector — oracle is wrong", c.name(), eb)));
+		}
+		ctx.ev.class("pinned_reference_vectors");
+	}
+	global::set_local_chain_type(ChainTypes::AutomatedTesting);
 	Ok(())
+}
+
+// ---------------------------------------------------------------------------
+// part "tuple": one tuple, both directions
+// ---------------------------------------------------------------------------
+
+fn bench_from_case(case: &Value) -> Result<(Bench, Vec<u64>, bool), Fail> {
+	let eb = case["edge_bits"].as_u64().unwrap_or(0) as u8;
+	let ps = case["proof_size"].as_u64().unwrap_or(8) as usize;
+	let hdr = unhex(case["header"].as_str().unwrap_or(""));
+	let hn = case["header_nonce"].as_u64().map(|x| x as u32);
+	let nonces: Vec<u64> = case["nonces"].as_array().map(|a| a.iter().filter_map(|x| x.as_u64()).collect()).unwrap_or_default();
+	let must_reject = case["must_reject"].as_bool().unwrap_or(false);
+	ensure_h(eb >= 2 && eb <= 40, "edge_bits out of harness range")?;
+	let b = if case["via"].is_object() {
+		let via = Via { chain: case["via"]["chain"].as_str().unwrap_or("main").to_string(), height: case["via"]["height"].as_u64().unwrap_or(0) };
+		Bench::new_via(via, eb, ps, hdr, hn)?
+	} else {
+		let var = Var::from_name(case["variant"].as_str().unwrap_or("")).ok_or_else(|| Fail::new("harness-bad-case", "unknown variant"))?;
+		Bench::new(var, eb, ps, hdr, hn)?
+	};
+	Ok((b, nonces, must_reject))
+}
+
+fn check_tuple(case: &Value) -> PResult {
+	let (b, nonces, must_reject) = bench_from_case(case)?;
+	let mut p = Proof { edge_bits: b.eb, nonces: vec![] };
+	let st = Stats::default();
+	let r = b.compare(&mut p, &nonces, must_reject, true, &st);
+	global::set_local_chain_type(ChainTypes::AutomatedTesting);
+	r.map(|_| ())
+}
+
+// ---------------------------------------------------------------------------
+// the harness's own solver: trimming + DFS over the reference endpoints
+// ---------------------------------------------------------------------------
+
+/// half-end `s` (0 = u side, 1 = v side) of edge `e`: (key under which it can
+/// be entered, key it leads to, node identity). None = not allowed (direction).
+#[inline(always)]
+fn half(var: Var, e: u64, s: u8, u: u64, v: u64) -> (Option<u64>, Option<u64>, u64) {
+	match var {
+		Var::Aroo => {
+			let k = if s == 0 { u } else { SIDE | v };
+			(Some(k), Some(k), k)
+		}
+		Var::Arooz => {
+			let k = if s == 0 { u } else { v };
+			(Some(k), Some(k), k)
+		}
+		Var::Atoo => {
+			if s == 0 {
+				(Some(u), Some(u ^ 1), u >> 1)
+			} else {
+				(Some(SIDE | v), Some(SIDE | (v ^ 1)), SIDE | (v >> 1))
+			}
+		}
+		Var::Arood => {
+			let node = if s == 0 { u } else { SIDE | v };
+			// even edge: tail u (s=0), head v (s=1); odd edge: tail v (s=1), head u (s=0)
+			let is_tail = (e & 1 == 0) == (s == 0);
+			if is_tail {
+				(Some(node), None, node)
+			} else {
+				(None, Some(node), node)
+			}
+		}
+		Var::Aroom => {
+			if s == 0 {
+				(Some(u), None, u)
+			} else {
+				(None, Some(v), v)
+			}
+		}
+	}
+}
+
+struct Solver<'a> {
+	var: Var,
+	ends: &'a [(u64, u64)],
+	alive: Vec<bool>,
+	/// key -> half-ends (2e+s) that can be entered under that key
+	in_map: HashMap<u64, Vec<u32>>,
+	budget: u64,
+}
+
+#[derive(Clone, Debug)]
+struct CycleRec {
+	nonces: Vec<u64>,
+	nodes: Vec<u64>,
+}
+
+impl<'a> Solver<'a> {
+	fn new(var: Var, ends: &'a [(u64, u64)]) -> Solver<'a> {
+		let mut in_map: HashMap<u64, Vec<u32>> = HashMap::with_capacity(ends.len() * 2);
+		for (e, &(u, v)) in ends.iter().enumerate() {
+			for s in 0..2u8 {
+				if let (Some(k), _, _) = half(var, e as u64, s, u, v) {
+					in_map.entry(k).or_default().push(2 * e as u32 + s as u32);
+				}
+			}
+		}
+		Solver { var, ends, alive: vec![true; ends.len()], in_map, budget: 0 }
+	}
+
+	fn h(&self, he: u32) -> (Option<u64>, Option<u64>, u64) {
+		let e = (he / 2) as usize;
+		half(self.var, e as u64, (he & 1) as u8, self.ends[e].0, self.ends[e].1)
+	}
+
+	/// repeatedly drop edges that cannot lie on any cycle
+	fn trim(&mut self) {
+		let n = self.ends.len();
+		loop {
+			let mut cin: HashMap<u64, u32> = HashMap::new();
+			let mut cout: HashMap<u64, u32> = HashMap::new();
+			for e in 0..n {
+				if !self.alive[e] {
+					continue;
+				}
+				for s in 0..2 {
+					let (ki, ko, _) = self.h(2 * e as u32 + s);
+					if let Some(k) = ki {
+						*cin.entry(k).or_insert(0) += 1;
+					}
+					if let Some(k) = ko {
+						*cout.entry(k).or_insert(0) += 1;
+					}
+				}
+			}
+			let mut killed = false;
+			for e in 0..n {
+				if !self.alive[e] {
+					continue;
+				}
+				let hs = [self.h(2 * e as u32), self.h(2 * e as u32 + 1)];
+				let mut ok = true;
+				for (ki, ko, _) in hs {
+					if let Some(k) = ko {
+						let own = hs.iter().filter(|x| x.0 == Some(k)).count() as u32;
+						if cin.get(&k).copied().unwrap_or(0) <= own {
+							ok = false;
+						}
+					}
+					if let Some(k) = ki {
+						let own = hs.iter().filter(|x| x.1 == Some(k)).count() as u32;
+						if cout.get(&k).copied().unwrap_or(0) <= own {
+							ok = false;
+						}
+					}
+				}
+				if !ok {
+					self.alive[e] = false;
+					killed = true;
+				}
+			}
+			if !killed {
+				break;
+			}
+		}
+	}
+
+	fn core_edges(&self) -> Vec<u64> {
+		(0..self.ends.len()).filter(|&e| self.alive[e]).map(|e| e as u64).collect()
+	}
+
+	/// all simple cycles of length <= max_len among alive edges (each once)
+	fn cycles(&mut self, max_len: usize, budget: u64) -> Vec<CycleRec> {
+		let mut out = vec![];
+		self.budget = budget;
+		let n = self.ends.len();
+		for e0 in 0..n {
+			if !self.alive[e0] || self.budget == 0 {
+				continue;
+			}
+			// undirected: enter through the u side only (fixes the orientation);
+			// directed: enter through the tail
+			let start = if self.var.directed() {
+				if self.h(2 * e0 as u32).0.is_some() {
+					2 * e0 as u32
+				} else {
+					2 * e0 as u32 + 1
+				}
+			} else {
+				2 * e0 as u32
+			};
+			let mut path = vec![e0 as u32];
+			let mut nodes = vec![self.h(start).2];
+			self.dfs(e0 as u32, start, start ^ 1, max_len, &mut path, &mut nodes, &mut out);
+		}
+		out
+	}
+
+	fn dfs(&mut self, e0: u32, start: u32, exit: u32, max_len: usize, path: &mut Vec<u32>, nodes: &mut Vec<u64>, out: &mut Vec<CycleRec>) {
+		if self.budget == 0 {
+			return;
+		}
+		self.budget -= 1;
+		let Some(k) = self.h(exit).1 else { return };
+		let cands: Vec<u32> = self.in_map.get(&k).cloned().unwrap_or_default();
+		for h2 in cands {
+			let e2 = h2 / 2;
+			if h2 == start {
+				// closes; a 1-edge "cycle" needs exit == own other end, still recorded
+				let mut nn: Vec<u64> = path.iter().map(|&x| x as u64).collect();
+				nn.sort_unstable();
+				out.push(CycleRec { nonces: nn, nodes: nodes.clone() });
+				continue;
+			}
+			if e2 <= e0 || !self.alive[e2 as usize] || path.contains(&e2) || path.len() >= max_len {
+				continue;
+			}
+			if self.h(h2 ^ 1).1.is_none() {
+				continue;
+			}
+			let node = self.h(h2).2;
+			if nodes.contains(&node) {
+				continue;
+			}
+			path.push(e2);
+			nodes.push(node);
+			self.dfs(e0, start, h2 ^ 1, max_len, path, nodes, out);
+			path.pop();
+			nodes.pop();
+		}
+	}
+
+	/// a simple open path of exactly `len` edges (ignores `alive`)
+	fn open_path(&mut self, len: usize, start_edge: u64, budget: u64) -> Option<Vec<u64>> {
+		self.budget = budget;
+		let e0 = start_edge as u32;
+		let start = if self.h(2 * e0).0.is_some() && self.h(2 * e0 + 1).1.is_some() { 2 * e0 } else { 2 * e0 + 1 };
+		if self.h(start ^ 1).1.is_none() {
+			return None;
+		}
+		let mut path = vec![e0];
+		let mut nodes = vec![self.h(start).2];
+		if self.path_dfs(start ^ 1, len, &mut path, &mut nodes) {
+			let mut nn: Vec<u64> = path.iter().map(|&x| x as u64).collect();
+			nn.sort_unstable();
+			Some(nn)
+		} else {
+			None
+		}
+	}
+
+	fn path_dfs(&mut self, exit: u32, len: usize, path: &mut Vec<u32>, nodes: &mut Vec<u64>) -> bool {
+		if self.budget == 0 {
+			return false;
+		}
+		self.budget -= 1;
+		let end_node = self.h(exit).2;
+		if path.len() == len {
+			// open: the far node is new
+			return !nodes.contains(&end_node);
+		}
+		let Some(k) = self.h(exit).1 else { return false };
+		let cands: Vec<u32> = self.in_map.get(&k).cloned().unwrap_or_default();
+		for h2 in cands {
+			let e2 = h2 / 2;
+			if path.contains(&e2) || self.h(h2 ^ 1).1.is_none() {
+				continue;
+			}
+			let node = self.h(h2).2;
+			if nodes.contains(&node) {
+				continue;
+			}
+			path.push(e2);
+			nodes.push(node);
+			if self.path_dfs(h2 ^ 1, len, path, nodes) {
+				return true;
+			}
+			path.pop();
+			nodes.pop();
+		}
+		false
+	}
+}
+
+/// deterministic small PRNG for derived choices (splitmix64)
+struct Rng(u64);
+impl Rng {
+	fn next(&mut self) -> u64 {
+		self.0 = self.0.wrapping_add(0x9E3779B97F4A7C15);
+		let mut z = self.0;
+		z = (z ^ (z >> 30)).wrapping_mul(0xBF58476D1CE4E5B9);
+		z = (z ^ (z >> 27)).wrapping_mul(0x94D049BB133111EB);
+		z ^ (z >> 31)
+	}
+	fn below(&mut self, n: u64) -> u64 {
+		self.next() % n.max(1)
+	}
+}
+
+/// tuples derived from one graph: (kind, nonces, must_reject)
+fn derived_tuples(b: &Bench, len: usize, rng: &mut Rng, want_paths: bool) -> Vec<(&'static str, Vec<u64>, bool)> {
+	let var = b.var.unwrap();
+	let all = b.all.as_ref().unwrap();
+	let n_edges = all.len() as u64;
+	let mut out: Vec<(&'static str, Vec<u64>, bool)> = vec![];
+	let mut sv = Solver::new(var, all);
+	sv.trim();
+	let cycles = sv.cycles(len, 200_000);
+	let full: Vec<&CycleRec> = cycles.iter().filter(|c| c.nonces.len() == len).collect();
+	for c in full.iter().take(3) {
+		let cy = &c.nonces;
+		out.push(("solver_cycle", cy.clone(), false));
+		// one nonce replaced (neighbour value and a random value)
+		for _ in 0..3 {
+			let i = rng.below(len as u64) as usize;
+			for cand in [cy[i] ^ 1, (cy[i] + 1) % n_edges, rng.below(n_edges), cy[i] ^ 64] {
+				if cand < n_edges && !cy.contains(&cand) {
+					let mut t = cy.clone();
+					t[i] = cand;
+					t.sort_unstable();
+					out.push(("one_replaced", t, false));
+				}
+			}
+		}
+		// two swapped (not ascending)
+		let i = rng.below(len as u64 - 1) as usize;
+		let mut t = cy.clone();
+		t.swap(i, i + 1);
+		out.push(("swapped_adjacent", t, true));
+		let j = rng.below(len as u64 - 1) as usize + 1;
+		let mut t = cy.clone();
+		t.swap(0, j);
+		out.push(("swapped_far", t, true));
+		let mut t = cy.clone();
+		t.reverse();
+		out.push(("descending", t, true));
+		// duplicated nonce
+		let mut t = cy.clone();
+		t[i + 1] = t[i];
+		out.push(("duplicate", t, true));
+		let mut t = cy.clone();
+		t[i] = t[i + 1];
+		out.push(("duplicate", t, true));
+		// out of range: same low bits, first value beyond, maximum
+		let mut t = cy.clone();
+		t[len - 1] += n_edges;
+		out.push(("out_of_range_same_low_bits", t, true));
+		let mut t = cy.clone();
+		t[len - 1] = n_edges;
+		out.push(("out_of_range_first", t, true));
+		let mut t = cy.clone();
+		t[len - 1] = u64::MAX;
+		out.push(("out_of_range_max", t, true));
+		let mut t = cy.clone();
+		t[len - 1] |= 1 << 63;
+		out.push(("out_of_range_high_bit", t, true));
+		// wrong count
+		let mut t = cy.clone();
+		t.remove(i);
+		out.push(("count_minus_one", t, true));
+		let mut t = cy.clone();
+		let extra = (0..n_edges).map(|_| rng.below(n_edges)).find(|x| !cy.contains(x)).unwrap_or(0);
+		t.push(extra);
+		t.sort_unstable();
+		out.push(("count_plus_one", t, true));
+		out.push(("empty", vec![], true));
+	}
+	// unions of two edge-disjoint shorter cycles with the full number of edges
+	let mut pairs = 0;
+	'outer: for i in 0..cycles.len() {
+		for j in i + 1..cycles.len() {
+			let (a, c) = (&cycles[i], &cycles[j]);
+			if a.nonces.len() + c.nonces.len() != len || a.nonces.iter().any(|x| c.nonces.contains(x)) {
+				continue;
+			}
+			let shared = a.nodes.iter().filter(|x| c.nodes.contains(x)).count();
+			let mut t = a.nonces.clone();
+			t.extend_from_slice(&c.nonces);
+			t.sort_unstable();
+			let kind = match (shared, a.nonces.len() == c.nonces.len()) {
+				(0, true) => "two_disjoint_half_cycles",
+				(0, false) => "two_disjoint_cycles_unequal",
+				(1, _) => "figure_eight",
+				_ => "two_cycles_sharing_nodes",
+			};
+			out.push((kind, t, false));
+			pairs += 1;
+			if pairs >= 8 {
+				break 'outer;
+			}
+		}
+	}
+	if want_paths {
+		for _ in 0..4 {
+			let s = rng.below(n_edges);
+			if let Some(p) = sv.open_path(len, s, 20_000) {
+				out.push(("open_path", p, false));
+				break;
+			}
+		}
+		// random ascending tuple
+		let mut t: Vec<u64> = vec![];
+		while t.len() < len {
+			let x = rng.below(n_edges);
+			if !t.contains(&x) {
+				t.push(x);
+			}
+		}
+		t.sort_unstable();
+		out.push(("random_ascending", t, false));
+	}
+	out
+}
+
+// ---------------------------------------------------------------------------
+// part 2: exhaustive tiny graphs
+// ---------------------------------------------------------------------------
+
+/// all ascending `k`-subsets of 0..n whose smallest element is `first`
+fn for_each_combo(n: usize, k: usize, first: usize, mut f: impl FnMut(&[u64])) {
+	if first + k > n {
+		return;
+	}
+	let mut idx: Vec<usize> = (first..first + k).collect();
+	let mut cur: Vec<u64> = idx.iter().map(|&x| x as u64).collect();
+	loop {
+		f(&cur);
+		// advance positions 1..k (position 0 is fixed)
+		let mut i = k;
+		loop {
+			if i == 1 {
+				return;
+			}
+			i -= 1;
+			if idx[i] != i + n - k {
+				break;
+			}
+		}
+		idx[i] += 1;
+		for j in i + 1..k {
+			idx[j] = idx[j - 1] + 1;
+		}
+		for j in i..k {
+			cur[j] = idx[j] as u64;
+		}
+	}
+}
+
+fn seed_header(seed: u64, k: u64) -> Vec<u8> {
+	let mut h = Vec::with_capacity(16);
+	h.extend_from_slice(&seed.to_le_bytes());
+	h.extend_from_slice(&k.to_le_bytes());
+	h
+}
+
+/// Does the graph contain (a true 8-cycle, an 8-subset in which every node is
+/// touched an even number of times without being a cycle)? Computed with the
+/// reference only; used to choose which graphs get the exhaustive treatment in
+/// addition to the unscreened ones.
+fn graph_is_interesting(var: Var, eb: u8, keys: &[u64; 4], ps: usize) -> (bool, bool) {
+	let all = ref_all_ends(var, eb, keys);
+	// undirected 2-core on node keys
+	let mut alive = vec![true; all.len()];
+	loop {
+		let mut cnt: HashMap<u64, u32> = HashMap::new();
+		for (e, &(u, v)) in all.iter().enumerate() {
+			if alive[e] {
+				for q in ports(var, e as u64, u, v) {
+					*cnt.entry(q.0).or_insert(0) += 1;
+				}
+			}
+		}
+		let mut killed = false;
+		for (e, &(u, v)) in all.iter().enumerate() {
+			if alive[e] && ports(var, e as u64, u, v).iter().any(|q| cnt[&q.0] < 2) {
+				alive[e] = false;
+				killed = true;
+			}
+		}
+		if !killed {
+			break;
+		}
+	}
+	let core: Vec<u64> = (0..all.len()).filter(|&e| alive[e]).map(|e| e as u64).collect();
+	if core.len() < ps || core.len() > 20 {
+		return (false, core.len() > 20);
+	}
+	let (mut cyc, mut deep) = (false, false);
+	for first in 0..=(core.len() - ps) {
+		for_each_combo(core.len(), ps, first, |t| {
+			if !cyc {
+				let nn: Vec<u64> = t.iter().map(|&i| core[i as usize]).collect();
+				let c = ref_check(var, eb, ps, &nn, &|n| all[n as usize]);
+				cyc |= c == Cls::Cycle;
+				deep |= c.deep_negative();
+			}
+		});
+	}
+	(cyc, deep)
+}
+
+fn exhaustive(ctx: &Ctx, eb: u8, n_plain: u64, n_screened: u64, fails: &Failures, st: &Stats) {
+	let ev = &ctx.ev;
+	let n = 1usize << eb;
+	let ps = 8usize;
+	let base = ctx.derive_seed("exh", eb as u64);
+	// choose header seeds: the first n_plain unscreened, then screened ones
+	let mut graphs: Vec<(Var, u64, bool)> = vec![];
+	for &var in &ALL_VARS {
+		for s in 0..n_plain {
+			graphs.push((var, s, false));
+		}
+	}
+	let t_screen = std::time::Instant::now();
+	if n_screened > 0 {
+		let found: Mutex<Vec<(Var, u64, bool)>> = Mutex::new(vec![]);
+		let cand_per_var = 60_000u64;
+		let chunk = 250u64;
+		let chunks = (cand_per_var / chunk) as usize;
+		for &var in &ALL_VARS {
+			// half of the screened graphs contain a true cycle, half a deep negative
+			let have_c = AtomicU64::new(0);
+			let have_d = AtomicU64::new(0);
+			let (want_c, want_d) = ((n_screened + 1) / 2, n_screened / 2);
+			par_jobs(chunks, threads(), &|c| {
+				for s in (c as u64 * chunk)..((c as u64 + 1) * chunk) {
+					if have_c.load(Ordering::Relaxed) >= want_c && have_d.load(Ordering::Relaxed) >= want_d {
+						return;
+					}
+					let s = 1_000_000 + s;
+					let keys = ref_keys(&seed_header(base, s), None);
+					let (cyc, deep) = graph_is_interesting(var, eb, &keys, ps);
+					if cyc {
+						if have_c.fetch_add(1, Ordering::Relaxed) < want_c {
+							found.lock().unwrap().push((var, s, true));
+						}
+					} else if deep && have_d.fetch_add(1, Ordering::Relaxed) < want_d {
+						found.lock().unwrap().push((var, s, true));
+					}
+				}
+			});
+		}
+		let mut f = found.into_inner().unwrap();
+		f.sort_by_key(|x| (x.0.name(), x.1));
+		graphs.extend(f);
+	}
+	let screening_s = t_screen.elapsed().as_secs_f64();
+	// job = (graph, smallest nonce)
+	let mut jobs = vec![];
+	for first in 0..=(n - ps) {
+		for g in &graphs {
+			jobs.push((*g, first));
+		}
+	}
+	let total = AtomicU64::new(0);
+	par_jobs(jobs.len(), threads(), &|j| {
+		let ((var, s, screened), first) = jobs[j];
+		if ctx.stop.load(Ordering::SeqCst) {
+			return;
+		}
+		let hdr = seed_header(base, s);
+		let b = match Bench::new(var, eb, ps, hdr, None) {
+			Ok(b) => b.with_all_ends(),
+			Err(f) => {
+				fails.push("tuple", f, json!({"variant": var.name(), "edge_bits": eb}));
+				return;
+			}
+		};
+		let mut proof = Proof { edge_bits: eb, nonces: Vec::with_capacity(ps) };
+		let mut counts: HashMap<Cls, u64> = HashMap::new();
+		let mut n_done = 0u64;
+		for_each_combo(n, ps, first, |t| match b.compare(&mut proof, t, false, false, st) {
+			Ok(Some(c)) => {
+				*counts.entry(c).or_insert(0) += 1;
+				n_done += 1;
+				if c == Cls::Cycle {
+					ev.sample("tuple-cycle", || b.case_json(t, false));
+				}
+			}
+			Ok(None) => {}
+			Err(f) => {
+				fails.push("tuple", f, b.case_json(t, false));
+			}
+		});
+		total.fetch_add(n_done, Ordering::Relaxed);
+		ev.evals(n_done);
+		if first == 0 {
+			ev.class(if screened { "exhaustive_graphs_screened" } else { "exhaustive_graphs_unscreened" });
+		}
+		for (c, k) in counts {
+			ev.class_n(&format!("exh{}_{}_{}", eb, var.name(), c.name()), k);
+			if c == Cls::Cycle {
+				ev.class_n("positives_true_cycles_accepted", k);
+				ev.nontrivial(&(var, eb, "cycle"));
+			} else if c.deep_negative() {
+				ev.class_n("negatives_reaching_cycle_following", k);
+				ev.nontrivial(&(var, eb, c.name()));
+			} else {
+				ev.class_n("negatives_cheap", k);
+			}
+		}
+	});
+	ev.extra(
+		&format!("exhaustive_tuples_edge_bits{}", eb),
+		json!({"screening_s": screening_s, "graphs_unscreened_per_variant": n_plain, "graphs_screened_total": graphs.len() as u64 - 5 * n_plain, "variants": 5,
+			"tuples_per_graph": if eb == 4 {12870u64} else {10518300}, "compared": total.load(Ordering::Relaxed)}),
+	);
+}
+
+// ---------------------------------------------------------------------------
+// part 3: larger graphs, solver-found cycles and near misses
+// ---------------------------------------------------------------------------
+
+fn larger_graphs(ctx: &Ctx, per_variant: u64, fails: &Failures, st: &Stats) {
+	let ev = &ctx.ev;
+	// more small graphs (cheap, rich in odd shapes), fewer big ones
+	let weights: [(u8, u64); 9] = [(6, 24), (7, 20), (8, 16), (9, 12), (10, 10), (11, 8), (12, 5), (13, 3), (14, 2)];
+	let wsum: u64 = weights.iter().map(|w| w.1).sum();
+	let mut jobs: Vec<(Var, u8, u64)> = vec![];
+	for &var in &ALL_VARS {
+		for (eb, w) in weights {
+			let cnt = (per_variant * w + wsum - 1) / wsum;
+			for k in 0..cnt {
+				jobs.push((var, eb, k));
+			}
+		}
+	}
+	let base = ctx.derive_seed("large", 0);
+	par_jobs(jobs.len(), threads(), &|j| {
+		let (var, eb, k) = jobs[j];
+		if ctx.stop.load(Ordering::SeqCst) {
+			return;
+		}
+		let hdr = seed_header(base ^ ((eb as u64) << 56), k);
+		// a third of the graphs set the key through the (header, nonce) form
+		let hn = if k % 3 == 2 { Some((k as u32).wrapping_mul(2654435761)) } else { None };
+		let b = match Bench::new(var, eb, 8, hdr, hn) {
+			Ok(b) => b.with_all_ends(),
+			Err(f) => {
+				fails.push("tuple", f, json!({"variant": var.name(), "edge_bits": eb}));
+				return;
+			}
+		};
+		let mut rng = Rng(base ^ (j as u64).wrapping_mul(0x9E37_79B9));
+		let tuples = derived_tuples(&b, 8, &mut rng, k % 4 == 0);
+		let mut proof = Proof { edge_bits: eb, nonces: vec![] };
+		ev.class("larger_graphs_built");
+		for (kind, t, must_reject) in tuples {
+			match b.compare(&mut proof, &t, must_reject, false, st) {
+				Ok(Some(c)) => {
+					ev.eval();
+					ev.class(&format!("large_{}", kind));
+					if c == Cls::Cycle {
+						ev.class("positives_true_cycles_accepted");
+						ev.class(&format!("large_cycle_{}", var.name()));
+						ev.nontrivial(&(var, eb, "cycle"));
+						if kind != "solver_cycle" {
+							ev.class("large_mutant_is_another_cycle");
+						}
+						ev.sample("large-cycle", || b.case_json(&t, false));
+					} else if c.deep_negative() {
+						ev.class("negatives_reaching_cycle_following");
+						ev.nontrivial(&(var, eb, kind));
+						if matches!(kind, "figure_eight" | "two_disjoint_half_cycles" | "open_path") {
+							ev.sample(&format!("large-{}", kind), || b.case_json(&t, must_reject));
+						}
+					} else {
+						ev.class("negatives_cheap");
+						ev.nontrivial(&(var, eb, kind));
+					}
+					if kind == "solver_cycle" && c != Cls::Cycle {
+						fails.push("tuple", Fail::new("harness-solver", format!("solver produced a non-cycle ({})", c.name())), b.case_json(&t, false));
+					}
+				}
+				Ok(None) => {}
+				Err(f) => fails.push("tuple", f, b.case_json(&t, must_reject)),
+			}
+		}
+	});
+}
+
+// ---------------------------------------------------------------------------
+// part 4: difficulty
+// ---------------------------------------------------------------------------
+
+/// bit-by-bit packing: nonce i occupies bits i*eb .. (i+1)*eb of a little-endian
+/// bit string padded with zero bits to a whole number of bytes
+fn ref_pack(eb: u8, nonces: &[u64]) -> Vec<u8> {
+	let w = eb as usize;
+	let mut out = vec![0u8; (w * nonces.len() + 7) / 8];
+	for (i, &n) in nonces.iter().enumerate() {
+		for b in 0..w {
+			if (n >> b) & 1 == 1 {
+				let p = i * w + b;
+				out[p / 8] |= 1 << (p % 8);
+			}
+		}
+	}
+	out
+}
+
+fn base_edge_bits(chain: &str) -> u8 {
+	match chain {
+		"auto" => 10,
+		"user" => 15,
+		_ => 24,
+	}
+}
+
+fn proof_size_of(chain: &str) -> usize {
+	if chain == "auto" {
+		8
+	} else {
+		42
+	}
+}
+
+/// graph weight from the consensus description: 2^(1 + edge_bits - base) * edge_bits,
+/// with the 31-bit graph losing one "bit" of weight per week after the first year
+fn ref_graph_weight(chain: &str, height: u64, eb: u8) -> u128 {
+	const WEEK: u64 = 7 * 24 * 60;
+	const YEAR: u64 = 52 * WEEK;
+	let mut x = eb as u64;
+	if eb == 31 && height >= YEAR {
+		x = x.saturating_sub(1 + (height - YEAR) / WEEK);
+	}
+	(1u128 << (1 + eb as u32 - base_edge_bits(chain) as u32)) * x as u128
+}
+
+fn ref_difficulty_scaled(eb: u8, nonces: &[u64], scale: u128) -> u64 {
+	let d = blake2b(32, &[], &ref_pack(eb, nonces));
+	let mut w = [0u8; 8];
+	w.copy_from_slice(&d.as_bytes()[..8]);
+	let h = u64::from_be_bytes(w).max(1) as u128;
+	let q = (scale << 64) / h;
+	(q.min(u64::MAX as u128) as u64).max(1)
+}
+
+fn check_difficulty(ctx: &Ctx, case: &Value, counting: bool) -> PResult {
+	let chain = case["chain"].as_str().unwrap_or("auto").to_string();
+	let height = case["height"].as_u64().unwrap_or(0);
+	let eb = case["edge_bits"].as_u64().unwrap_or(0) as u8;
+	let sec = case["secondary_scaling"].as_u64().unwrap_or(1) as u32;
+	let nonces: Vec<u64> = case["nonces"].as_array().map(|a| a.iter().filter_map(|x| x.as_u64()).collect()).unwrap_or_default();
+	global::set_local_chain_type(chain_of(&chain));
+	ensure_h(nonces.len() == global::proofsize() && (eb == 29 || eb >= base_edge_bits(&chain)) && eb <= 63, "difficulty case outside domain")?;
+	let mk = |nonce: u64, td: u64| ProofOfWork {
+		total_difficulty: Difficulty::from_num(td),
+		secondary_scaling: sec,
+		nonce,
+		proof: Proof { edge_bits: eb, nonces: nonces.clone() },
+	};
+	let (p1, p2) = (mk(0, 1), mk(0xdead_beef, 77_777));
+	let d1 = catch(|| p1.to_difficulty(height).to_num())?;
+	let d1b = catch(|| p1.to_difficulty(height).to_num())?;
+	let d2 = catch(|| p2.to_difficulty(height).to_num())?;
+	let scale = if eb == 29 { sec as u128 } else { ref_graph_weight(&chain, height, eb) };
+	let want = ref_difficulty_scaled(eb, &nonces, scale);
+	let un = catch(|| p1.to_unscaled_difficulty().to_num())?;
+	global::set_local_chain_type(ChainTypes::AutomatedTesting);
+	if counting {
+		ctx.ev.eval();
+		ctx.ev.class("difficulty_cases");
+		if want > 1 && want < u64::MAX {
+			ctx.ev.nontrivial(&("difficulty", chain.clone(), eb, height / 10080));
+		} else {
+			ctx.ev.class("difficulty_clamped");
+		}
+	}
+	crate::ensure!(d1 == d1b, "difficulty-nondeterministic", "same proof gave {} then {}", d1, d1b);
+	crate::ensure!(d1 == d2, "difficulty-depends-on-non-proof-fields", "difficulty {} vs {} for identical packed nonces", d1, d2);
+	crate::ensure!(d1 == want, "difficulty-mismatch", "chain {} height {} edge_bits {} scaling {}: to_difficulty {} != recomputed {}", chain, height, eb, sec, d1, want);
+	let wun = ref_difficulty_scaled(eb, &nonces, 1);
+	crate::ensure!(un == wun, "unscaled-difficulty-mismatch", "to_unscaled_difficulty {} != recomputed {}", un, wun);
+	Ok(())
+}
+
+fn random_nonces(rng: &mut Rng, eb: u8, n: usize, sorted: bool) -> Vec<u64> {
+	let m = mask_bits(eb as u32);
+	let mut v: Vec<u64> = (0..n).map(|_| rng.next() & m).collect();
+	match rng.below(8) {
+		0 => v[0] = m,
+		1 => v[n - 1] = 0,
+		2 => v.iter_mut().for_each(|x| *x = m),
+		_ => {}
+	}
+	if sorted {
+		v.sort_unstable();
+	}
+	v
+}
+
+fn difficulty_part(ctx: &Ctx, fails: &Failures) {
+	const WEEK: u64 = 10080;
+	const YEAR: u64 = 52 * WEEK;
+	let mut rng = Rng(ctx.derive_seed("difficulty", 0));
+	let reps = ctx.n(6, 60);
+	let mut cases = vec![];
+	for chain in ["main", "auto", "test", "user"] {
+		let ps = proof_size_of(chain);
+		let mut heights = vec![0, 1, YEAR - 1, YEAR, YEAR + 1, YEAR + WEEK - 1, YEAR + WEEK, YEAR + 15 * WEEK, YEAR + 29 * WEEK, YEAR + 30 * WEEK - 1, YEAR + 30 * WEEK, YEAR + 31 * WEEK, 2 * YEAR, 5 * YEAR, 1 << 40];
+		for _ in 0..4 {
+			heights.push(rng.below(3 * YEAR));
+		}
+		for eb in (base_edge_bits(chain)..=63).chain(if base_edge_bits(chain) > 29 { vec![29u8] } else { vec![] }) {
+			for &h in &heights {
+				// the height only matters for 31 bits: fewer heights elsewhere
+				if eb != 31 && h % 5 != 0 && h != YEAR + 30 * WEEK {
+					continue;
+				}
+				for r in 0..reps {
+					let sec = match (r + h) % 5 {
+						0 => 0,
+						1 => 1,
+						2 => u32::MAX,
+						_ => rng.next() as u32,
+					};
+					cases.push(json!({"chain": chain, "height": h, "edge_bits": eb, "secondary_scaling": sec, "nonces": random_nonces(&mut rng, eb, ps, true)}));
+				}
+			}
+		}
+	}
+	for c in &cases {
+		if let Ok(Err(f)) | Err(f) = catch(|| check_difficulty(ctx, c, true)) {
+			fails.push("difficulty", f, c.clone());
+		}
+	}
+	ctx.ev.sample("difficulty", || cases[cases.len() / 2].clone());
+}
+
+// ---------------------------------------------------------------------------
+// part 5: Proof serialisation
+// ---------------------------------------------------------------------------
+
+fn read_proof(bytes: &[u8]) -> Result<Result<Proof, ser::Error>, Fail> {
+	catch(|| ser::deserialize::<Proof, _>(&mut &bytes[..], ser::ProtocolVersion::local(), ser::DeserializationMode::default()))
+}
+
+fn check_ser(ctx: &Ctx, case: &Value, counting: bool) -> PResult {
+	let r = check_ser_inner(ctx, case, counting);
+	global::set_local_chain_type(ChainTypes::AutomatedTesting);
+	r
+}
+
+fn check_ser_inner(ctx: &Ctx, case: &Value, counting: bool) -> PResult {
+	let chain = case["chain"].as_str().unwrap_or("auto").to_string();
+	let eb = case["edge_bits"].as_u64().unwrap_or(0) as u8;
+	let nonces: Vec<u64> = case["nonces"].as_array().map(|a| a.iter().filter_map(|x| x.as_u64()).collect()).unwrap_or_default();
+	global::set_local_chain_type(chain_of(&chain));
+	let ps = global::proofsize();
+	ensure_h(nonces.len() == ps && (1..=63).contains(&eb) && nonces.iter().all(|&n| n <= mask_bits(eb as u32)), "ser case outside domain")?;
+	let proof = Proof { edge_bits: eb, nonces: nonces.clone() };
+	let packed = ref_pack(eb, &nonces);
+	let mut want = vec![eb];
+	want.extend_from_slice(&packed);
+	let total_bits = eb as usize * ps;
+	let pad_bits = packed.len() * 8 - total_bits;
+	if counting {
+		ctx.ev.eval();
+		ctx.ev.class("ser_cases");
+	}
+	let got_pack = catch(|| proof.pack_nonces())?;
+	crate::ensure!(got_pack == packed, "pack-nonces-differ", "edge_bits {} proof size {}: pack_nonces {} != bitwise packing {}", eb, ps, hex(&got_pack), hex(&packed));
+	let bytes = catch(|| ser::ser_vec(&proof, ser::ProtocolVersion::local()))?.map_err(|e| Fail::new("ser-write-error", format!("{:?}", e)))?;
+	crate::ensure!(bytes == want, "ser-bytes-differ", "edge_bits {}: written {} != expected {}", eb, hex(&bytes), hex(&want));
+	if packed.len() < 8 {
+		// the decoder is not defined below 8 payload bytes (it refuses them)
+		let r = read_proof(&bytes)?;
+		crate::ensure!(r.is_err(), "ser-short-read-accepted", "edge_bits {}: {} payload bytes were read although the decoder documents a minimum of 8", eb, packed.len());
+		if counting {
+			ctx.ev.class("ser_below_decoder_minimum");
+		}
+		return Ok(());
+	}
+	let back = read_proof(&bytes)?.map_err(|e| Fail::new("roundtrip-read-failed", format!("edge_bits {} proof size {}: valid encoding refused: {:?}", eb, ps, e)))?;
+	crate::ensure!(back.edge_bits == eb && back.nonces == nonces, "roundtrip-mismatch", "edge_bits {}: read back {:?} != {:?}", eb, back.nonces, nonces);
+	let again = ser::ser_vec(&back, ser::ProtocolVersion::local()).map_err(|e| Fail::new("ser-write-error", format!("{:?}", e)))?;
+	crate::ensure!(again == bytes, "roundtrip-bytes-differ", "edge_bits {}: re-encoding differs", eb);
+	if counting {
+		ctx.ev.nontrivial(&("ser", ps, eb, pad_bits));
+	}
+	// every padding bit, alone and all together
+	let mut all = bytes.clone();
+	for p in total_bits..packed.len() * 8 {
+		let mut b = bytes.clone();
+		b[1 + p / 8] ^= 1 << (p % 8);
+		all[1 + p / 8] ^= 1 << (p % 8);
+		let r = read_proof(&b)?;
+		if counting {
+			ctx.ev.class("ser_padding_bit_flips");
+		}
+		crate::ensure!(r.is_err(), "padding-bit-accepted", "edge_bits {} proof size {}: padding bit {} set and the proof was still read", eb, ps, p);
+	}
+	if pad_bits > 1 {
+		crate::ensure!(read_proof(&all)?.is_err(), "padding-bit-accepted", "edge_bits {}: all padding bits set and the proof was still read", eb);
+	}
+	// data bits: flipped encodings decode to exactly the flipped nonce and re-encode identically
+	for p in [0, total_bits / 2, total_bits - 1, eb as usize - 1, eb as usize, total_bits - eb as usize] {
+		let mut b = bytes.clone();
+		b[1 + p / 8] ^= 1 << (p % 8);
+		let r = read_proof(&b)?.map_err(|e| Fail::new("roundtrip-read-failed", format!("edge_bits {}: encoding with data bit {} flipped refused: {:?}", eb, p, e)))?;
+		let mut exp = nonces.clone();
+		exp[p / eb as usize] ^= 1 << (p % eb as usize);
+		crate::ensure!(r.nonces == exp, "roundtrip-mismatch", "edge_bits {}: data bit {} flipped decoded to {:?}, expected {:?}", eb, p, r.nonces, exp);
+		let w = ser::ser_vec(&r, ser::ProtocolVersion::local()).map_err(|e| Fail::new("ser-write-error", format!("{:?}", e)))?;
+		crate::ensure!(w == b, "roundtrip-bytes-differ", "edge_bits {}: data bit {} flipped does not re-encode identically", eb, p);
+	}
+	// truncation and bad edge_bits are refused, not panicking
+	crate::ensure!(read_proof(&bytes[..bytes.len() - 1])?.is_err(), "truncated-accepted", "edge_bits {}: truncated encoding read", eb);
+	for bad in [0u8, 64, 65, 128, 255] {
+		let mut b = bytes.clone();
+		b[0] = bad;
+		b.extend_from_slice(&[0u8; 400]);
+		crate::ensure!(read_proof(&b)?.is_err(), "bad-edge-bits-accepted", "edge_bits byte {} accepted", bad);
+	}
+	Ok(())
+}
+
+fn ser_part(ctx: &Ctx, fails: &Failures) {
+	let mut rng = Rng(ctx.derive_seed("ser", 0));
+	let reps = ctx.n(12, 200);
+	let mut cases = vec![];
+	for chain in ["auto", "main", "user"] {
+		let ps = proof_size_of(chain);
+		for eb in 1..=63u8 {
+			for r in 0..reps {
+				let mut nn = random_nonces(&mut rng, eb, ps, r % 2 == 0);
+				if r == 0 {
+					nn = vec![0; ps];
+				}
+				cases.push(json!({"chain": chain, "edge_bits": eb, "nonces": nn}));
+			}
+		}
+	}
+	for c in &cases {
+		if let Ok(Err(f)) | Err(f) = catch(|| check_ser(ctx, c, true)) {
+			fails.push("ser", f, c.clone());
+		}
+	}
+	ctx.ev.sample("ser", || cases[cases.len() / 2 + 7].clone());
+	ctx.ev.extra("ser_edge_bits_covered", json!({"proof_size_8": "8..=63 (1..=7 are below the decoder's 8-byte minimum: written, refused on read)", "proof_size_42": "2..=63 (1 below the minimum)"}));
+}
+
+// ---------------------------------------------------------------------------
+// part 6: the production selector and verify_size
+// ---------------------------------------------------------------------------
+
+/// search header seeds until the solver finds a `len`-cycle of `var`
+fn find_cycle(var: Var, eb: u8, len: usize, hdr_of: &(dyn Fn(u64) -> Vec<u8> + Sync), max_tries: u64) -> Option<(Vec<u8>, Vec<u64>)> {
+	let hit: Mutex<Option<(u64, Vec<u8>, Vec<u64>)>> = Mutex::new(None);
+	let chunk = 8u64;
+	par_jobs((max_tries / chunk) as usize, threads(), &|c| {
+		for k in (c as u64 * chunk)..((c as u64 + 1) * chunk) {
+			if let Some((best, _, _)) = &*hit.lock().unwrap() {
+				if *best < k {
+					return;
+				}
+			}
+			let hdr = hdr_of(k);
+			let keys = ref_keys(&hdr, None);
+			let all = ref_all_ends(var, eb, &keys);
+			let mut sv = Solver::new(var, &all);
+			sv.trim();
+			let cy = sv.cycles(len, 400_000);
+			if let Some(c) = cy.iter().find(|c| c.nonces.len() == len) {
+				let mut g = hit.lock().unwrap();
+				if g.as_ref().map(|x| x.0 > k).unwrap_or(true) {
+					*g = Some((k, hdr, c.nonces.clone()));
+				}
+				return;
+			}
+		}
+	});
+	hit.into_inner().unwrap().map(|x| (x.1, x.2))
+}
+
+fn selector_part(ctx: &Ctx, fails: &Failures, st: &Stats) {
+	let ev = &ctx.ev;
+	const HY: u64 = 262_080;
+	let eb = 11u8;
+	let base = ctx.derive_seed("selector", 0);
+	// one 42-cycle per cuckaroo-family variant (plain header bytes)
+	let mut found: Vec<(Var, Vec<u8>, Vec<u64>)> = vec![];
+	for (i, var) in [Var::Aroo, Var::Arood, Var::Aroom, Var::Arooz].into_iter().enumerate() {
+		match find_cycle(var, eb, 42, &|k| seed_header(base.wrapping_add(i as u64), k), 4000) {
+			Some((h, c)) => found.push((var, h, c)),
+			None => ev.class("selector_no_42_cycle_found"),
+		}
+	}
+	let mut proof = Proof { edge_bits: eb, nonces: vec![] };
+	let main_heights: Vec<u64> = vec![0, 1, HY - 1, HY, HY + 1, 2 * HY - 1, 2 * HY, 3 * HY - 1, 3 * HY, 4 * HY - 1, 4 * HY, 4 * HY + 1, 10 * HY, ctx.derive_seed("h", 0) % (5 * HY), ctx.derive_seed("h", 1) % (5 * HY)];
+	let test_heights: Vec<u64> = vec![0, 185_039, 185_040, 298_079, 298_080, 552_959, 552_960, 642_239, 642_240, 900_000];
+	for (chain, heights) in [("main", &main_heights), ("test", &test_heights)] {
+		for &h in heights.iter() {
+			for (var, hdr, cy) in &found {
+				let via = Via { chain: chain.to_string(), height: h };
+				let b = match Bench::new_via(via, eb, 42, hdr.clone(), None) {
+					Ok(b) => b,
+					Err(f) => {
+						fails.push("tuple", f, json!({"via": {"chain": chain, "height": h}, "edge_bits": eb, "proof_size": 42, "header": hex(hdr), "nonces": cy, "variant": var.name()}));
+						continue;
+					}
+				};
+				let mut tuples: Vec<(Vec<u64>, bool)> = vec![(cy.clone(), false)];
+				let mut t = cy.clone();
+				t[20] ^= 1;
+				t.sort_unstable();
+				t.dedup();
+				if t.len() == 42 {
+					tuples.push((t, false));
+				}
+				let mut t = cy.clone();
+				t.pop();
+				tuples.push((t, true));
+				for (t, mr) in tuples {
+					match b.compare(&mut proof, &t, mr, false, st) {
+						Ok(Some(c)) => {
+							ev.eval();
+							ev.class("selector_comparisons");
+							if c == Cls::Cycle {
+								ev.class("selector_cycle_accepted_in_its_era");
+								ev.class("positives_true_cycles_accepted");
+								ev.nontrivial(&("selector", chain, b.var, "cycle"));
+								ev.sample("selector", || b.case_json(&t, false));
+							} else {
+								ev.nontrivial(&("selector", chain, b.var, *var, c.name()));
+							}
+						}
+						Ok(None) => {}
+						Err(f) => fails.push("tuple", f, b.case_json(&t, mr)),
+					}
+				}
+			}
+		}
+	}
+	// directly built contexts at proof size 42 (UserTesting): the same cycles plus
+	// a cuckatoo one, with their near misses
+	let mut direct = found.clone();
+	if let Some((h, c)) = find_cycle(Var::Atoo, eb, 42, &|k| seed_header(base.wrapping_add(9), k), 4000) {
+		direct.push((Var::Atoo, h, c));
+	}
+	let mut rng = Rng(base);
+	for (var, hdr, cy) in &direct {
+		let b = match Bench::new(*var, eb, 42, hdr.clone(), None) {
+			Ok(b) => b.with_all_ends(),
+			Err(f) => {
+				fails.push("tuple", f, json!({"variant": var.name(), "edge_bits": eb, "proof_size": 42}));
+				continue;
+			}
+		};
+		let mut tuples = derived_tuples(&b, 42, &mut rng, true);
+		tuples.push(("solver_cycle", cy.clone(), false));
+		for (kind, t, mr) in tuples {
+			match b.compare(&mut proof, &t, mr, false, st) {
+				Ok(Some(c)) => {
+					ev.eval();
+					ev.class("direct42_comparisons");
+					if c == Cls::Cycle {
+						ev.class("positives_true_cycles_accepted");
+						ev.class("direct42_cycle_accepted");
+						ev.nontrivial(&(*var, eb, 42, "cycle"));
+					} else {
+						ev.nontrivial(&(*var, eb, 42, kind));
+					}
+				}
+				Ok(None) => {}
+				Err(f) => fails.push("tuple", f, b.case_json(&t, mr)),
+			}
+		}
+	}
+	// the cuckatoo 29-bit repository vector on a directly built context
+	match Bench::new(Var::Atoo, 29, 42, vec![0u8; 80], Some(vectors::ATOO_29.0)) {
+		Ok(b) => {
+			let sol = vectors::ATOO_29.1.to_vec();
+			let mut bad = sol.clone();
+			bad[0] -= 1;
+			for (t, mr) in [(sol, false), (bad, false)] {
+				match b.compare(&mut proof, &t, mr, false, st) {
+					Ok(Some(c)) => {
+						ev.eval();
+						ev.class("direct42_comparisons");
+						if c == Cls::Cycle {
+							ev.class("direct42_cycle_accepted");
+							ev.nontrivial(&(Var::Atoo, 29, 42, "cycle"));
+						}
+					}
+					Ok(None) => {}
+					Err(f) => fails.push("tuple", f, b.case_json(&t, mr)),
+				}
+			}
+		}
+		Err(f) => fails.push("tuple", f, json!({"variant": "cuckatoo", "edge_bits": 29, "proof_size": 42})),
+	}
+	// edge_bits > 29: cuckatoo at every height (repository vectors, header + nonce form)
+	for (ebv, (hn, sol)) in [(31u8, &vectors::ATOO_31), (32, &vectors::ATOO_32), (33, &vectors::ATOO_33), (29, &vectors::ATOO_29)] {
+		for &h in &[0u64, HY, 3 * HY, 4 * HY, 9 * HY] {
+			let via = Via { chain: "main".into(), height: h };
+			let b = match Bench::new_via(via, ebv, 42, vec![0u8; 80], Some(*hn)) {
+				Ok(b) => b,
+				Err(f) => {
+					fails.push("tuple", f, json!({"via": {"chain": "main", "height": h}, "edge_bits": ebv, "proof_size": 42, "header": hex(&[0u8; 80]), "header_nonce": hn, "nonces": sol.to_vec()}));
+					continue;
+				}
+			};
+			let mut bad = sol.to_vec();
+			bad[0] -= 1;
+			let mut oor = sol.to_vec();
+			oor[41] += 1u64 << ebv;
+			for (t, mr) in [(sol.to_vec(), false), (bad, false), (oor, true)] {
+				match b.compare(&mut proof, &t, mr, false, st) {
+					Ok(Some(c)) => {
+						ev.eval();
+						ev.class("selector_comparisons");
+						if c == Cls::Cycle {
+							ev.class("selector_cuckatoo_vector_accepted");
+							ev.nontrivial(&("selector", "main", b.var, ebv, "cycle"));
+						}
+					}
+					Ok(None) => {}
+					Err(f) => fails.push("tuple", f, b.case_json(&t, mr)),
+				}
+			}
+		}
+	}
+	global::set_local_chain_type(ChainTypes::AutomatedTesting);
+}
+
+/// pow::verify_size on real block headers: the siphash keys come from
+/// blake2b(pre_pow bytes), the context from the selector.
+fn check_verify_size(case: &Value) -> PResult {
+	let r = check_verify_size_inner(case);
+	global::set_local_chain_type(ChainTypes::AutomatedTesting);
+	r
+}
+
+fn header_for(chain: &str, height: u64, pow_nonce: u64) -> BlockHeader {
+	global::set_local_chain_type(chain_of(chain));
+	let mut bh = BlockHeader::default();
+	bh.height = height;
+	bh.pow.nonce = pow_nonce;
+	bh
+}
+
+fn check_verify_size_inner(case: &Value) -> PResult {
+	let chain = case["chain"].as_str().unwrap_or("main").to_string();
+	let height = case["height"].as_u64().unwrap_or(0);
+	let pow_nonce = case["pow_nonce"].as_u64().unwrap_or(0);
+	let eb = case["edge_bits"].as_u64().unwrap_or(0) as u8;
+	let nonces: Vec<u64> = case["nonces"].as_array().map(|a| a.iter().filter_map(|x| x.as_u64()).collect()).unwrap_or_default();
+	let mut bh = header_for(&chain, height, pow_nonce);
+	let pre = bh.pre_pow();
+	let keys = ref_keys(&pre, None);
+	let ps = global::proofsize();
+	let var = rules_variant(&chain, height, eb);
+	let cls = match var {
+		Some(v) => ref_check(v, eb, ps, &nonces, &|n| ref_ends(v, eb, &keys, n)),
+		None => Cls::Count,
+	};
+	bh.pow.proof = Proof { edge_bits: eb, nonces: nonces.clone() };
+	let (chain2, bh2) = (chain.clone(), bh.clone());
+	let what = format!("pow::verify_size(header chain {} height {} pow.nonce {} edge_bits {} nonces {:?})", chain, height, pow_nonce, eb, nonces);
+	let out = guarded(what, move || {
+		global::set_local_chain_type(chain_of(&chain2));
+		Ok(pow::verify_size(&bh2).map_err(|e| e.to_string()))
+	})
+	.map_err(|mut f| {
+		if f.sig == "verify-nonterminating" {
+			f.sig = format!("verify-nonterminating:{}", var.map(|v| v.name()).unwrap_or("none"));
+		}
+		f
+	})?;
+	let vn = var.map(|v| v.name()).unwrap_or("none");
+	match (out, cls == Cls::Cycle) {
+		(Ok(()), false) => Err(Fail::new(format!("non-cycle-accepted:{}", vn), format!("verify_size accepted a header whose proof the reference classifies as {} ({} height {})", cls.name(), chain, height))),
+		(Err(e), true) => Err(Fail::new(format!("true-cycle-rejected:{}", vn), format!("verify_size rejected ({}) a header with a true {}-cycle ({} {} height {})", e, ps, vn, chain, height))),
+		_ => Ok(()),
+	}
+}
+
+fn verify_size_part(ctx: &Ctx, fails: &Failures) {
+	let ev = &ctx.ev;
+	const HY: u64 = 262_080;
+	let plan: [(&str, u64, u8, usize); 5] = [("main", 5, 11, 42), ("main", HY + 5, 11, 42), ("main", 2 * HY + 5, 11, 42), ("main", 3 * HY + 5, 11, 42), ("auto", 7, 10, 8)];
+	for (chain, height, eb, ps) in plan {
+		let var = rules_variant(chain, height, eb).unwrap();
+		let start = ctx.derive_seed("vs", height) % 1_000_000;
+		// pre_pow() must be taken on a thread with the right chain type: precompute serially in chunks
+		let hdr_of = |k: u64| {
+			let bh = header_for(chain, height, start + k);
+			let p = bh.pre_pow();
+			p
+		};
+		let Some((pre, cy)) = find_cycle(var, eb, ps, &hdr_of, 4000) else {
+			ev.class("verify_size_no_cycle_found");
+			continue;
+		};
+		// recover pow nonce: last 8 bytes of pre_pow are the big-endian nonce
+		let mut w = [0u8; 8];
+		w.copy_from_slice(&pre[pre.len() - 8..]);
+		let pow_nonce = u64::from_be_bytes(w);
+		let mut variants: Vec<Vec<u64>> = vec![cy.clone()];
+		let mut t = cy.clone();
+		t[ps / 2] ^= 1;
+		t.sort_unstable();
+		t.dedup();
+		variants.push(t);
+		let mut t = cy.clone();
+		t.swap(0, 1);
+		variants.push(t);
+		for (i, t) in variants.iter().enumerate() {
+			let case = json!({"chain": chain, "height": height, "pow_nonce": pow_nonce, "edge_bits": eb, "nonces": t});
+			ev.eval();
+			ev.class("verify_size_headers");
+			if i == 0 {
+				ev.nontrivial(&("verify_size", chain, var, "cycle"));
+				ev.class("positives_true_cycles_accepted");
+				ev.sample("verify_size", || case.clone());
+			}
+			if let Ok(Err(f)) | Err(f) = catch(|| check_verify_size(&case)) {
+				fails.push("verify_size", f, case);
+			}
+		}
+	}
+	global::set_local_chain_type(ChainTypes::AutomatedTesting);
+}
+
+/// Build a 42-nonce cuckarood proof whose cycle-following walk never returns
+/// to its first edge (only attempted when tiny-graph tuples of that kind were
+/// seen): edges e1 < e2 (even) and o1 (odd) with u(e1)=u(e2)=u(o1), v(o1)=v(e2),
+/// filled up with 19 even and 20 odd edges that keep the endpoint xor at zero.
+fn build_rho42(all: &[(u64, u64)], rng: &mut Rng) -> Option<Vec<u64>> {
+	let n = all.len();
+	let mut by_uv: HashMap<(u64, u64), Vec<usize>> = HashMap::new();
+	for e in (0..n).step_by(2) {
+		by_uv.entry(all[e]).or_default().push(e);
+	}
+	for o1 in (1..n).step_by(2) {
+		let Some(e2s) = by_uv.get(&all[o1]) else { continue };
+		for &e2 in e2s {
+			let (x, y) = all[o1];
+			for e1 in (0..e2).step_by(2) {
+				if all[e1].0 != x || all[e1].1 == y {
+					continue;
+				}
+				// fill: evens > e1 with v != y (and != e2), odds with u != x (and != o1)
+				let evens: Vec<usize> = (e1 + 2..n).step_by(2).filter(|&e| e != e2 && all[e].1 != y && all[e].0 != x).collect();
+				let odds: Vec<usize> = (1..n).step_by(2).filter(|&o| o != o1 && all[o].0 != x && all[o].1 != y).collect();
+				if evens.len() < 40 || odds.len() < 40 {
+					continue;
+				}
+				for _attempt in 0..200 {
+					let mut pick: Vec<usize> = vec![];
+					while pick.len() < 18 {
+						let c = evens[rng.below(evens.len() as u64) as usize];
+						if !pick.contains(&c) {
+							pick.push(c);
+						}
+					}
+					while pick.len() < 18 + 19 {
+						let c = odds[rng.below(odds.len() as u64) as usize];
+						if !pick.contains(&c) {
+							pick.push(c);
+						}
+					}
+					// required xor of the last (even, odd) pair
+					let mut tu = x ^ x ^ x;
+					let mut tv = all[e1].1;
+					for &p in &pick {
+						tu ^= all[p].0;
+						tv ^= all[p].1;
+					}
+					let mut tab: HashMap<(u64, u64), usize> = HashMap::new();
+					for &e in &evens {
+						if !pick.contains(&e) {
+							tab.insert(all[e], e);
+						}
+					}
+					for &o in &odds {
+						if pick.contains(&o) {
+							continue;
+						}
+						if let Some(&e) = tab.get(&(tu ^ all[o].0, tv ^ all[o].1)) {
+							let mut t: Vec<u64> = pick.iter().map(|&p| p as u64).collect();
+							t.extend_from_slice(&[e1 as u64, e2 as u64, o1 as u64, e as u64, o as u64]);
+							t.sort_unstable();
+							return Some(t);
+						}
+					}
+				}
+			}
+		}
+	}
+	None
+}
+
+fn rho42_part(ctx: &Ctx, fails: &Failures) {
+	let ev = &ctx.ev;
+	let (chain, height, eb) = ("main", 262_080 + 1234, 10u8);
+	let start = ctx.derive_seed("rho", 0) % 1_000_000;
+	let mut rng = Rng(ctx.derive_seed("rho", 1));
+	for k in 0..400u64 {
+		let bh = header_for(chain, height, start + k);
+		let keys = ref_keys(&bh.pre_pow(), None);
+		let all = ref_all_ends(Var::Arood, eb, &keys);
+		if let Some(t) = build_rho42(&all, &mut rng) {
+			let case = json!({"chain": chain, "height": height, "pow_nonce": start + k, "edge_bits": eb, "nonces": t});
+			ev.eval();
+			ev.class("verify_size_predicted_nonterminating_42");
+			if let Ok(Err(f)) | Err(f) = catch(|| check_verify_size(&case)) {
+				fails.push("verify_size", f, case);
+			}
+			break;
+		}
+	}
+	global::set_local_chain_type(ChainTypes::AutomatedTesting);
+}
+
+// ---------------------------------------------------------------------------
+// run / replay
+// ---------------------------------------------------------------------------
+
+static INIT: Once = Once::new();
+
+fn init() {
+	INIT.call_once(crate::world::init_global);
+	crate::world::init_thread();
+}
+
+pub fn run(ctx: &Ctx) -> HResult<()> {
+	init();
+	let ev = &ctx.ev;
+	ev.rule("reference = own siphash-2-4 / siphash-block + endpoint rules per variant + (every touched node has exactly two fitting ports and the edges are connected); pinned on the repository's 12 known-good 42-cycles. Tiny graphs: every ascending 8-tuple of every chosen graph (edge_bits 4; thorough also 5) compared in both directions; graphs are unscreened header seeds plus seeds screened by the reference for containing a cycle or deep negative. Larger graphs (edge_bits 6..14): cycles found by the harness's own trimming+DFS solver and near misses derived from them (one nonce replaced, swapped, duplicated, out of range, 7/9 nonces, unions of two shorter cycles disjoint or sharing a node, open paths). Non-trivial positive = enumeration/solver-found true cycle accepted by verify; non-trivial negative = tuple with right count, order and range in which every node is touched an even number of times (no endpoint-parity shortcut can reject it, so the cycle-following code decides); distinct by (variant, edge_bits, kind)");
+	ev.assume("blake2b (blake2-rfc) is trusted; the SipHash round structure is taken from the SipHash paper and Tromp's cuckoo reference and pinned on published outputs");
+	ev.assume("verify() calls for which the harness predicts non-termination run on an abandoned thread with a time limit; after the first confirmed one the remaining predicted ones are counted, not executed");
+	pin_reference(ctx)?;
+
+	let fails = Failures::new();
+	let st = Stats::default();
+	let only = std::env::var("GV_C05_ONLY").unwrap_or_default();
+	let on = |p: &str| only.is_empty() || only.split(',').any(|x| x == p);
+	let mut timing = serde_json::Map::new();
+	let mut t0 = std::time::Instant::now();
+	let mut lap = |name: &str| {
+		timing.insert(name.to_string(), json!((t0.elapsed().as_secs_f64() * 100.0).round() / 100.0));
+		t0 = std::time::Instant::now();
+	};
+	if on("ser") {
+		ser_part(ctx, &fails);
+		lap("ser");
+	}
+	if on("difficulty") {
+		difficulty_part(ctx, &fails);
+		lap("difficulty");
+	}
+	if on("selector") {
+		selector_part(ctx, &fails, &st);
+		verify_size_part(ctx, &fails);
+		lap("selector+verify_size");
+	}
+	// the 42-nonce non-termination demonstration through pow::verify_size runs
+	// beside the graph parts (it blocks for the time limit if verify hangs)
+	std::thread::scope(|sc| {
+		let demo = if on("selector") { Some(sc.spawn(|| rho42_part(ctx, &fails))) } else { None };
+		if on("large") {
+			larger_graphs(ctx, ctx.n(2000, 50_000), &fails, &st);
+			lap("larger_graphs");
+		}
+		if on("exh") {
+			exhaustive(ctx, 4, ctx.n(100, 3000), ctx.n(70, 2000), &fails, &st);
+			if !ctx.quick() {
+				exhaustive(ctx, 5, ctx.n(0, 1), ctx.n(0, 3), &fails, &st);
+			}
+			lap("exhaustive");
+		}
+		if let Some(h) = demo {
+			let _ = h.join();
+		}
+	});
+	let (pred, sk) = (st.predicted_hang.load(Ordering::Relaxed), st.skipped_hang.load(Ordering::Relaxed));
+	if pred > 0 {
+		ev.class_n("predicted_nonterminating_tuples", pred);
+		ev.class_n("predicted_nonterminating_not_executed", sk);
+	}
+	ev.extra("part_wall_s", Value::Object(timing));
+	let harness = fails.report(ctx);
+	global::set_local_chain_type(ChainTypes::AutomatedTesting);
+	if !harness.is_empty() {
+		return Err(HarnessError(harness.join(" | ")));
+	}
+	Ok(())
+}
+
+pub fn replay(ctx: &Ctx, part: &str, case: &Value) -> PResult {
+	init();
+	match part {
+		"tuple" => check_tuple(case),
+		"ser" => check_ser(ctx, case, false),
+		"difficulty" => check_difficulty(ctx, case, false),
+		"verify_size" => check_verify_size(case),
+		_ => Ok(()),
+	}
 }
